@@ -237,6 +237,84 @@ theorem refTbl_unique (srcf : ModPath → Option Src) {n m : Nat} (x : ModPath) 
 /-- `x` has a reference table: it and everything it imports parse, its import graph below it is acyclic, ExpandModules succeeds -/
 def Good (srcf : ModPath → Option Src) (x : ModPath) : Prop := ∃ n T, refTbl L B srcf n x = some T
 
+/-! ### the error a fresh load raises -/
+
+/-- `[load(p) for p in ps]` in a fresh context: `some none` = every module is good, `some (some e)` = the first module that is
+    not good raises `e`, `none` = not determined at this depth -/
+def scanErr (good : ModPath → Bool) (err : ModPath → Option Err) : List ModPath → Option (Option Err)
+  | [] => some none
+  | p :: ps => if good p then scanErr good err ps else (err p).map some
+
+/-- the error `load x` raises in a fresh process (`none` = no error, or not determined at depth `n`) -/
+def refErr (srcf : ModPath → Option Src) : Nat → ModPath → Option Err
+  | 0, _ => none
+  | n + 1, x =>
+    if x ∈ B.mods then none else
+    match srcf x with
+    | none => some .syntax
+    | some src =>
+      match L.parse src with
+      | none => some .syntax
+      | some t =>
+        match scanErr (fun d => (refTbl L B srcf n d).isSome) (refErr srcf n) (L.imports t) with
+        | none => none
+        | some (some e) => some e
+        | some none => (L.expand x (L.query t) (refLook B (refTbl L B srcf n) (L.imports t))).2
+
+theorem scanErr_some_some {good : ModPath → Bool} {err : ModPath → Option Err} {ps : List ModPath} {e : Err}
+    (h : scanErr good err ps = some (some e)) : ∃ d, d ∈ ps ∧ good d = false ∧ err d = some e := by
+  induction ps with
+  | nil => simp [scanErr] at h
+  | cons p rest ih =>
+    simp only [scanErr] at h
+    by_cases hg : good p = true
+    · simp only [hg, if_true] at h
+      obtain ⟨d, hd, a, b⟩ := ih h
+      exact ⟨d, List.mem_cons_of_mem _ hd, a, b⟩
+    · simp only [hg, if_false, Bool.false_eq_true] at h
+      cases he : err p with
+      | none => rw [he] at h; cases h
+      | some e' =>
+        rw [he] at h
+        simp only [Option.map, Option.some.injEq] at h
+        exact ⟨p, by simp, by simpa using hg, by rw [he, h]⟩
+
+theorem scanErr_some_none {good : ModPath → Bool} {err : ModPath → Option Err} {ps : List ModPath}
+    (h : scanErr good err ps = some none) : ∀ d, d ∈ ps → good d = true := by
+  induction ps with
+  | nil => intro d hd; cases hd
+  | cons p rest ih =>
+    simp only [scanErr] at h
+    by_cases hg : good p = true
+    · simp only [hg, if_true] at h
+      intro d hd
+      rcases List.mem_cons.1 hd with e | e
+      · exact e ▸ hg
+      · exact ih h d e
+    · simp only [hg, if_false, Bool.false_eq_true] at h
+      cases he : err p with
+      | none => rw [he] at h; cases h
+      | some e' => rw [he] at h; cases h
+
+theorem refLook_eq_of_defined (srcf : ModPath → Option Src) (n m : Nat) (imps : List ModPath)
+    (h : ∀ d, d ∈ imps → (refTbl L B srcf n d).isSome = true ∧ (refTbl L B srcf m d).isSome = true) :
+    refLook B (refTbl L B srcf n) imps = refLook B (refTbl L B srcf m) imps := by
+  funext k
+  unfold refLook
+  by_cases hk : modOf k ∈ imps ∨ modOf k ∈ B.mods
+  · simp only [hk, if_true]
+    rcases hk with hk | hk
+    · obtain ⟨a, b⟩ := h _ hk
+      cases ha : refTbl L B srcf n (modOf k) with
+      | none => rw [ha] at a; cases a
+      | some T =>
+        cases hb : refTbl L B srcf m (modOf k) with
+        | none => rw [hb] at b; cases b
+        | some T' => rw [refTbl_unique L B srcf _ T T' ha hb]
+    · rw [refTbl_base L B srcf _ _ hk, refTbl_base L B srcf _ _ hk]
+  · simp only [hk, if_false]
+
+
 end Ref
 
 /-! ## a good module loads successfully and gets its reference table -/
@@ -316,7 +394,8 @@ theorem preprocess_good (TreeOk : Tree → Prop)
 /-- symbol files after `preprocess p`: the old ones, and possibly the table of `p` -/
 theorem preprocess_stored (s : St L) (p : ModPath) (q : ModPath) (rows : List (Key × V))
     (h : alookup (preprocess L E s p).2.stored q = some rows) :
-    alookup s.stored q = some rows ∨ (q = p ∧ onDisk E p = true ∧ rows = tableOf (preprocess L E s p).2.db p) := by
+    alookup s.stored q = some rows ∨
+      (q = p ∧ onDisk E p = true ∧ rows = tableOf (preprocess L E s p).2.db p ∧ (preprocess L E s p).1 = .ok ()) := by
   unfold preprocess at h ⊢
   by_cases hm : hasModule s.db p = true
   · simp only [hm, if_true] at h ⊢; exact Or.inl h
@@ -348,7 +427,7 @@ theorem preprocess_stored (s : St L) (p : ModPath) (q : ModPath) (rows : List (K
               rw [hq] at h
               simp only at h
               split at h
-              · next e => right; cases h; exact ⟨e.symm, by simp only [Bool.and_eq_true] at hc; exact hc.1, rfl⟩
+              · next e => right; cases h; exact ⟨e.symm, by simp only [Bool.and_eq_true] at hc; exact hc.1, rfl, trivial⟩
               · cases h
           · next hc =>
             simp only [hc, if_false]
@@ -372,15 +451,19 @@ structure World : Prop where
 /-- a source of the in-memory module imports only modules below it -/
 def SrcAcyclic (src : Src) : Prop := ∀ t, L.parse src = some t → TreeOk t ∧ ∀ d, d ∈ L.imports t → rank d < rank E.main
 
-/-- the tables of the registered good modules (except those in the middle of being loaded, `Ex`) are the reference tables -/
+/-- the tables of the registered modules (except those in the middle of being loaded, `Ex`) are reference tables: what is
+    registered is good -/
 structure Settled (s : St L) (Ex : List ModPath) : Prop where
   base : ∀ b, b ∈ B.mods → b ∈ s.mods
-  table : ∀ x, x ∈ s.mods → x ∉ Ex → ∀ n T, refTbl L B (srcOf L E s) n x = some T → tableOf s.db x = T
-  closed : ∀ x, x ∈ s.mods → x ∉ Ex → Good L B (srcOf L E s) x → ∀ ep, alookup s.eps x = some ep →
-    ∀ d, d ∈ L.imports ep.tree → d ∈ s.mods
-  stored : ∀ p rows, alookup s.stored p = some rows → ∀ n T, refTbl L B (srcOf L E s) n p = some T → rows = T
+  table : ∀ x, x ∈ s.mods → x ∉ Ex → ∃ n T, refTbl L B (srcOf L E s) n x = some T ∧ tableOf s.db x = T
+  stored : ∀ p rows, alookup s.stored p = some rows → ∃ n, refTbl L B (srcOf L E s) n p = some rows
   storedDisk : ∀ p rows, alookup s.stored p = some rows → onDisk E p = true
   mainAcyclic : SrcAcyclic L E rank TreeOk s.mainSrc
+
+theorem Settled.tableEq {s : St L} {Ex : List ModPath} (h : Settled L E B rank TreeOk s Ex) (x : ModPath) (hx : x ∈ s.mods)
+    (hEx : x ∉ Ex) (n : Nat) (T : List (Key × V)) (hT : refTbl L B (srcOf L E s) n x = some T) : tableOf s.db x = T := by
+  obtain ⟨n', T', hT', he⟩ := h.table x hx hEx
+  rw [he]; exact refTbl_unique L B _ x T' T hT' hT
 
 theorem imports_rank (hW : World L E B rank TreeOk) (s : St L) (p : ModPath) (ep : Ep Tree NV) (hI : Inv L E s)
     (hM : SrcAcyclic L E rank TreeOk s.mainSrc) (hep : alookup s.eps p = some ep) :
@@ -397,47 +480,6 @@ theorem imports_rank (hW : World L E B rank TreeOk) (s : St L) (p : ModPath) (ep
     split at ht
     · next e => rw [e]; exact hM ep.tree (by simpa using ht)
     · simp at ht
-
-/-- a module is not good when it is removed from the exceptions -/
-theorem Settled.drop {s : St L} {p : ModPath} {Ex : List ModPath} (h : Settled L E B rank TreeOk s (p :: Ex))
-    (hp : ¬ Good L B (srcOf L E s) p) : Settled L E B rank TreeOk s Ex where
-  base := h.base
-  table x hx hEx n T hT := by
-    by_cases e : x = p
-    · subst e; exact absurd ⟨n, T, hT⟩ hp
-    · exact h.table x hx (by simp [e, hEx]) n T hT
-  closed x hx hEx hG := by
-    by_cases e : x = p
-    · subst e; exact absurd hG hp
-    · exact h.closed x hx (by simp [e, hEx]) hG
-  stored := h.stored
-  storedDisk := h.storedDisk
-  mainAcyclic := h.mainAcyclic
-
-/-- registering a new module `p` (entrypoint loaded, nothing else changed) keeps the others settled -/
-theorem Settled.register {s0 s2 : St L} {p : ModPath} {Ex : List ModPath} (h : Settled L E B rank TreeOk s0 Ex)
-    (hmods : ∀ x, x ∈ s2.mods ↔ x ∈ s0.mods ∨ x = p) (hdb : s2.db = s0.db) (hstored : s2.stored = s0.stored)
-    (hmain : s2.mainSrc = s0.mainSrc) (heps : ∀ x, x ≠ p → alookup s2.eps x = alookup s0.eps x) :
-    Settled L E B rank TreeOk s2 (p :: Ex) := by
-  have hsrc := srcOf_congr L E s0 s2 hmain
-  refine ⟨fun b hb => (hmods b).2 (Or.inl (h.base b hb)), ?_, ?_, ?_, hstored ▸ h.storedDisk, hmain ▸ h.mainAcyclic⟩
-  · intro x hx hEx n T hT
-    simp only [List.mem_cons, not_or] at hEx
-    rw [hsrc] at hT
-    rw [hdb]
-    rcases (hmods x).1 hx with h1 | h1
-    · exact h.table x h1 hEx.2 n T hT
-    · exact absurd h1 hEx.1
-  · intro x hx hEx hG ep hep d hd
-    simp only [List.mem_cons, not_or] at hEx
-    rw [hsrc] at hG
-    rw [heps x hEx.1] at hep
-    rcases (hmods x).1 hx with h1 | h1
-    · exact (hmods d).2 (Or.inl (h.closed x h1 hEx.2 hG ep hep d hd))
-    · exact absurd h1 hEx.1
-  · intro q rows hq n T hT
-    rw [hsrc] at hT; rw [hstored] at hq
-    exact h.stored q rows hq n T hT
 
 /-- unpacking the definition of a reference table of a non-base module -/
 theorem refTbl_step {srcf : ModPath → Option Src} {n : Nat} {x : ModPath} {T : List (Key × V)} (hx : x ∉ B.mods)
@@ -478,6 +520,206 @@ theorem refTbl_step {srcf : ModPath → Option Src} {n : Nat} {x : ModPath} {T :
             | some Td => exact ⟨Td, rfl⟩
         · rw [if_neg hall] at h; cases h
 
+
+/-- a module cannot be good and have a reference error -/
+theorem good_not_err (srcf : ModPath → Option Src) : ∀ n x e, refErr L B srcf n x = some e → ∀ m T, refTbl L B srcf m x = some T → False := by
+  intro n
+  induction n with
+  | zero => intro x e h; simp [refErr] at h
+  | succ n ih =>
+    intro x e h m T hT
+    simp only [refErr] at h
+    by_cases hb : x ∈ B.mods
+    · simp [hb] at h
+    · simp only [hb, if_false] at h
+      obtain ⟨m', src, t, ins, hm, hsrc, hparse, hdeps, hexp, _⟩ := refTbl_step L B hb hT
+      rw [hsrc] at h
+      simp only [hparse] at h
+      cases hsc : scanErr (fun d => (refTbl L B srcf n d).isSome) (refErr L B srcf n) (L.imports t) with
+      | none => rw [hsc] at h; cases h
+      | some r =>
+        rw [hsc] at h
+        cases r with
+        | some e' =>
+          obtain ⟨d, hd, _, hde⟩ := scanErr_some_some hsc
+          obtain ⟨Td, hTd⟩ := hdeps d hd
+          exact ih d e' hde m' Td hTd
+        | none =>
+          simp only at h
+          have hall := scanErr_some_none hsc
+          have hl := refLook_eq_of_defined L B srcf n m' (L.imports t) (fun d hd => ⟨hall d hd, by obtain ⟨Td, hTd⟩ := hdeps d hd; rw [hTd]; rfl⟩)
+          rw [hl, hexp] at h
+          cases h
+
+
+/-! ### the reference is determined for every module of an acyclic world -/
+
+theorem scanErr_mono (good good' : ModPath → Bool) (err err' : ModPath → Option Err) (ps : List ModPath) (r : Option Err)
+    (hg : ∀ d, d ∈ ps → good d = true → good' d = true)
+    (he : ∀ d e, d ∈ ps → good d = false → err d = some e → good' d = false ∧ err' d = some e)
+    (h : scanErr good err ps = some r) : scanErr good' err' ps = some r := by
+  induction ps with
+  | nil => exact h
+  | cons p rest ih =>
+    simp only [scanErr] at h ⊢
+    by_cases hp : good p = true
+    · simp only [hp, if_true] at h
+      simp only [hg p (by simp) hp, if_true]
+      exact ih (fun d hd => hg d (List.mem_cons_of_mem _ hd)) (fun d e hd => he d e (List.mem_cons_of_mem _ hd)) h
+    · have hp' : good p = false := by simpa using hp
+      simp only [hp', Bool.false_eq_true, if_false] at h
+      cases hep : err p with
+      | none => rw [hep] at h; cases h
+      | some e =>
+        obtain ⟨a, b⟩ := he p e (by simp) hp' hep
+        rw [hep] at h
+        simp only [a, Bool.false_eq_true, if_false, b]
+        exact h
+
+theorem refErr_succ_eq (srcf : ModPath → Option Src) (n : Nat) (x : ModPath) :
+    refErr L B srcf (n + 1) x =
+      if x ∈ B.mods then none else
+      match srcf x with
+      | none => some .syntax
+      | some src =>
+        match L.parse src with
+        | none => some .syntax
+        | some t =>
+          match scanErr (fun d => (refTbl L B srcf n d).isSome) (refErr L B srcf n) (L.imports t) with
+          | none => none
+          | some (some e) => some e
+          | some none => (L.expand x (L.query t) (refLook B (refTbl L B srcf n) (L.imports t))).2 := rfl
+
+theorem refErr_succ (srcf : ModPath → Option Src) : ∀ n x e, refErr L B srcf n x = some e → refErr L B srcf (n + 1) x = some e := by
+  intro n
+  induction n with
+  | zero => intro x e h; simp [refErr] at h
+  | succ n ih =>
+    intro x e h
+    rw [refErr_succ_eq] at h ⊢
+    by_cases hb : x ∈ B.mods
+    · simp [hb] at h
+    · simp only [hb, if_false] at h ⊢
+      cases hs : srcf x with
+      | none => rw [hs] at h; exact h
+      | some src =>
+        rw [hs] at h
+        simp only at h ⊢
+        cases hp : L.parse src with
+        | none => rw [hp] at h; exact h
+        | some t =>
+          rw [hp] at h
+          simp only at h ⊢
+          cases hsc : scanErr (fun d => (refTbl L B srcf n d).isSome) (refErr L B srcf n) (L.imports t) with
+          | none => rw [hsc] at h; cases h
+          | some r =>
+            rw [hsc] at h
+            have hsc' : scanErr (fun d => (refTbl L B srcf (n + 1) d).isSome) (refErr L B srcf (n + 1)) (L.imports t) = some r := by
+              apply scanErr_mono _ _ _ _ _ r _ _ hsc
+              · intro d _ hd
+                cases hT : refTbl L B srcf n d with
+                | none => rw [hT] at hd; cases hd
+                | some T => rw [refTbl_succ L B srcf n d T hT]; rfl
+              · intro d e' _ _ hde
+                refine ⟨?_, ih d e' hde⟩
+                cases hT : refTbl L B srcf (n + 1) d with
+                | none => rfl
+                | some T => exact absurd hT (fun hh => good_not_err L B srcf n d e' hde (n + 1) T hh)
+            rw [hsc']
+            cases r with
+            | some e' => exact h
+            | none =>
+              simp only at h ⊢
+              have hall := scanErr_some_none hsc
+              have hall' := scanErr_some_none hsc'
+              rw [← refLook_eq_of_defined L B srcf n (n + 1) (L.imports t) (fun d hd => ⟨hall d hd, hall' d hd⟩)]
+              exact h
+
+theorem refErr_mono (srcf : ModPath → Option Src) {n m : Nat} (hnm : n ≤ m) (x : ModPath) (e : Err)
+    (h : refErr L B srcf n x = some e) : refErr L B srcf m x = some e := by
+  induction hnm with
+  | refl => exact h
+  | step _ ih => exact refErr_succ L B srcf _ x e ih
+
+/-- a module is determined at depth `n`: it has a reference table or a reference error -/
+def Determined (srcf : ModPath → Option Src) (n : Nat) (x : ModPath) : Prop :=
+  (∃ T, refTbl L B srcf n x = some T) ∨ (∃ e, refErr L B srcf n x = some e)
+
+theorem Determined.mono (srcf : ModPath → Option Src) {n m : Nat} (hnm : n ≤ m) (x : ModPath) (h : Determined L B srcf n x) :
+    Determined L B srcf m x := by
+  rcases h with ⟨T, hT⟩ | ⟨e, he⟩
+  · exact Or.inl ⟨T, refTbl_mono L B srcf hnm x T hT⟩
+  · exact Or.inr ⟨e, refErr_mono L B srcf hnm x e he⟩
+
+theorem determined_common (srcf : ModPath → Option Src) (l : List ModPath) (h : ∀ d, d ∈ l → ∃ n, Determined L B srcf n d) :
+    ∃ N, ∀ d, d ∈ l → Determined L B srcf N d := by
+  induction l with
+  | nil => exact ⟨0, fun d hd => by cases hd⟩
+  | cons a rest ih =>
+    obtain ⟨N, hN⟩ := ih (fun d hd => h d (List.mem_cons_of_mem _ hd))
+    obtain ⟨n, hn⟩ := h a (by simp)
+    refine ⟨max N n, ?_⟩
+    intro d hd
+    rcases List.mem_cons.1 hd with e | e
+    · subst e; exact Determined.mono L B srcf (Nat.le_max_right N n) _ hn
+    · exact Determined.mono L B srcf (Nat.le_max_left N n) d (hN d e)
+
+theorem scanErr_determined (good : ModPath → Bool) (err : ModPath → Option Err) (ps : List ModPath)
+    (h : ∀ d, d ∈ ps → good d = true ∨ ∃ e, err d = some e) : ∃ r, scanErr good err ps = some r := by
+  induction ps with
+  | nil => exact ⟨none, rfl⟩
+  | cons p rest ih =>
+    simp only [scanErr]
+    by_cases hp : good p = true
+    · simp only [hp, if_true]
+      exact ih (fun d hd => h d (List.mem_cons_of_mem _ hd))
+    · simp only [hp, if_false, Bool.false_eq_true]
+      rcases h p (by simp) with h1 | ⟨e, he⟩
+      · exact absurd h1 hp
+      · exact ⟨some e, by rw [he]; rfl⟩
+
+/-- when the imports of every parseable module have smaller rank, every module is determined at some depth -/
+theorem determined_of_acyclic (srcf : ModPath → Option Src) (rank : ModPath → Nat)
+    (hacyc : ∀ x src t, srcf x = some src → L.parse src = some t → ∀ d, d ∈ L.imports t → rank d < rank x) :
+    ∀ k x, rank x < k → ∃ n, Determined L B srcf n x := by
+  intro k
+  induction k with
+  | zero => intro x h; exact absurd h (Nat.not_lt_zero _)
+  | succ k ih =>
+    intro x hx
+    by_cases hb : x ∈ B.mods
+    · exact ⟨0, Or.inl ⟨_, refTbl_base L B srcf 0 x hb⟩⟩
+    · cases hs : srcf x with
+      | none => exact ⟨1, Or.inr ⟨.syntax, by simp [refErr, hb, hs]⟩⟩
+      | some src =>
+        cases hp : L.parse src with
+        | none => exact ⟨1, Or.inr ⟨.syntax, by simp [refErr, hb, hs, hp]⟩⟩
+        | some t =>
+          obtain ⟨N, hN⟩ := determined_common L B srcf (L.imports t)
+            (fun d hd => ih d (Nat.lt_of_lt_of_le (hacyc x src t hs hp d hd) (Nat.le_of_lt_succ hx)))
+          obtain ⟨r, hr⟩ := scanErr_determined (fun d => (refTbl L B srcf N d).isSome) (refErr L B srcf N) (L.imports t)
+            (fun d hd => by
+              rcases hN d hd with ⟨T, hT⟩ | ⟨e, he⟩
+              · left; rw [hT]; rfl
+              · exact Or.inr ⟨e, he⟩)
+          refine ⟨N + 1, ?_⟩
+          cases r with
+          | some e => exact Or.inr ⟨e, by simp [refErr, hb, hs, hp, hr]⟩
+          | none =>
+            have hall := scanErr_some_none hr
+            cases hex : L.expand x (L.query t) (refLook B (refTbl L B srcf N) (L.imports t)) with
+            | mk ins err =>
+              cases err with
+              | some e => exact Or.inr ⟨e, by simp [refErr, hb, hs, hp, hr, hex]⟩
+              | none =>
+                left
+                refine ⟨extendRows L (aaddAll [] (rowsOf x ins)), ?_⟩
+                rw [refTbl_succ_eq, if_neg hb, hs]
+                simp only [Option.bind, refStep, hp]
+                have : (L.imports t).all (fun d => (refTbl L B srcf N d).isSome) = true := by
+                  rw [List.all_eq_true]; exact hall
+                rw [if_pos this, hex]
+
 /-- loading modules that are all registered does nothing (or runs out of fuel) -/
 def RecReg (rec : List ModPath → St L → Except Err Unit × St L) : Prop :=
   ∀ ps s, (∀ p, p ∈ ps → p ∈ s.mods) → rec ps s = (.ok (), s) ∨ rec ps s = (.error .recursion, s)
@@ -501,43 +743,12 @@ theorem loadAll_registered : ∀ f, RecReg L (loadAll L E f) := by
 
 /-- the history-independence specification of a function that loads a list of modules -/
 def RecQ (rec : List ModPath → St L → Except Err Unit × St L) : Prop :=
-  ∀ ps s Ex, (∀ p, p ∈ ps → GoodName p) → Inv L E s → SrcOk L s.mainSrc → Settled L E B rank TreeOk s Ex →
+  ∀ ps s Ex, (∀ p, p ∈ ps → GoodName p) → Inv L E s → EpsSub L s → SrcOk L s.mainSrc → Settled L E B rank TreeOk s Ex →
     (∀ p, p ∈ ps → ∀ a, a ∈ Ex → rank p < rank a) → (∀ a, a ∈ Ex → a ∉ B.mods) →
     (rec ps s).1 ≠ .error .recursion →
-    Settled L E B rank TreeOk (rec ps s).2 Ex ∧ ((∀ p, p ∈ ps → Good L B (srcOf L E s) p) → (rec ps s).1 = .ok ())
-
-theorem settled_after_preprocess {s3 s4 : St L} {p : ModPath} {Ex : List ModPath}
-    (hS3 : Settled L E B rank TreeOk s3 (p :: Ex)) (hT : Touches L p s3 s4)
-    (hst : ∀ q rows, alookup s4.stored q = some rows → alookup s3.stored q = some rows ∨ (q = p ∧ onDisk E p = true ∧ rows = tableOf s4.db p))
-    (hgood : Good L B (srcOf L E s3) p →
-      (∀ n T, refTbl L B (srcOf L E s3) n p = some T → tableOf s4.db p = T) ∧
-      (∀ ep, alookup s4.eps p = some ep → ∀ d, d ∈ L.imports ep.tree → d ∈ s4.mods)) :
-    Settled L E B rank TreeOk s4 Ex := by
-  have hsrc := srcOf_congr L E s3 s4 hT.mainSrc
-  refine ⟨fun b hb => hT.mods ▸ hS3.base b hb, ?_, ?_, ?_, ?_, hT.mainSrc ▸ hS3.mainAcyclic⟩
-  rotate_right
-  · intro q rows hq
-    rcases hst q rows hq with h | ⟨e, h, _⟩
-    · exact hS3.storedDisk q rows h
-    · exact e ▸ h
-  · intro x hx hEx n T hTx
-    rw [hsrc] at hTx
-    by_cases e : x = p
-    · subst e; exact (hgood ⟨n, T, hTx⟩).1 n T hTx
-    · rw [hT.table x e]
-      exact hS3.table x (hT.mods ▸ hx) (by simp [e, hEx]) n T hTx
-  · intro x hx hEx hG ep hep d hd
-    rw [hsrc] at hG
-    by_cases e : x = p
-    · subst e; exact (hgood hG).2 ep hep d hd
-    · rw [hT.eps x e] at hep
-      rw [hT.mods]
-      exact hS3.closed x (hT.mods ▸ hx) (by simp [e, hEx]) hG ep hep d hd
-  · intro q rows hq n T hTq
-    rw [hsrc] at hTq
-    rcases hst q rows hq with h | ⟨e, _, h⟩
-    · exact hS3.stored q rows h n T hTq
-    · subst e; rw [h]; exact (hgood ⟨n, T, hTq⟩).1 n T hTq
+    Settled L E B rank TreeOk (rec ps s).2 Ex ∧
+    ((∀ p, p ∈ ps → Good L B (srcOf L E s) p) → (rec ps s).1 = .ok ()) ∧
+    (∀ n e, scanErr (fun d => (refTbl L B (srcOf L E s) n d).isSome) (refErr L B (srcOf L E s) n) ps = some (some e) → (rec ps s).1 = .error e)
 
 theorem parseModule_ok (s : St L) (p : ModPath) (t : Tree) (hast : ∀ x t, alookup s.ast x = some t → (E.disk x).bind L.parse = some t)
     (h : (srcOf L E s p).bind L.parse = some t) : (parseModule L E s p).1 = .ok t := by
@@ -585,238 +796,563 @@ theorem tableOf_nil_of_unregistered (s : St L) (p : ModPath) (hI : Inv L E s) (h
   intro e
   exact hp (e ▸ hI.tags kv.1 kv.2 hkv)
 
+
+theorem parseModule_err (s : St L) (p : ModPath) (hast : ∀ x t, alookup s.ast x = some t → (E.disk x).bind L.parse = some t)
+    (h : (srcOf L E s p).bind L.parse = none) : (parseModule L E s p).1 = .error .syntax := by
+  unfold parseModule
+  unfold srcOf at h
+  cases hd : E.disk p with
+  | none =>
+    rw [hd] at h
+    simp only at h ⊢
+    by_cases e : p = E.main
+    · simp only [e, if_true] at h ⊢
+      have : L.parse s.mainSrc = none := by simpa using h
+      rw [this]
+    · simp only [e, if_false]
+  | some src =>
+    rw [hd] at h
+    simp only at h ⊢
+    have hp : L.parse src = none := by simpa using h
+    cases ha : alookup s.ast p with
+    | some t' =>
+      have := hast p t' ha
+      rw [hd] at this
+      have : L.parse src = some t' := by simpa using this
+      rw [hp] at this; cases this
+    | none => simp only [hp]
+
+theorem epLoad_err (s : St L) (p : ModPath) (hI : Inv L E s) (hE : EpsSub L s) (hp : p ∉ s.mods)
+    (h : (srcOf L E s p).bind L.parse = none) : (epLoad L E s p).1 = .error .syntax := by
+  unfold epLoad
+  have : ahas s.eps p = false := by
+    cases hh : ahas s.eps p with
+    | false => rfl
+    | true => exact absurd (hE p hh) hp
+  simp only [this, Bool.false_eq_true, if_false]
+  have := parseModule_err L E s p hI.ast h
+  generalize parseModule L E s p = pm at this
+  obtain ⟨r, s1⟩ := pm
+  simp only at this
+  subst this
+  rfl
+
+/-- the processors fail with the reference error when ExpandModules fails on the reference tables -/
+theorem preprocess_bad (TreeOk : Tree → Prop)
+    (hloc : ∀ x t look₁ look₂, TreeOk t → (∀ k, (modOf k = x ∨ modOf k ∈ L.imports t ∨ modOf k ∈ B.mods) → look₁ k = look₂ k) →
+      L.expand x (L.query t) look₁ = L.expand x (L.query t) look₂)
+    (s : St L) (p : ModPath) (hI : Inv L E s) (ep : Ep Tree NV) (hep : alookup s.eps p = some ep)
+    (htok : TreeOk ep.tree) (hempty : tableOf s.db p = []) (rec : ModPath → Option (List (Key × V)))
+    (hagree : ∀ k, (modOf k = p ∨ modOf k ∈ L.imports ep.tree ∨ modOf k ∈ B.mods) → alookup s.db k = refLook B rec (L.imports ep.tree) k)
+    (e : Err) (hexp : (L.expand p (L.query ep.tree) (refLook B rec (L.imports ep.tree))).2 = some e)
+    (hstored : alookup s.stored p = none) :
+    (preprocess L E s p).1 = .error e := by
+  unfold preprocess
+  have hhm : hasModule s.db p = false := (hasModule_false_iff s.db p).2 hempty
+  simp only [hhm, Bool.false_eq_true, if_false]
+  have hst : (if onDisk E p = true then alookup s.stored p else none) = none := by split <;> simp [hstored]
+  rw [hst]
+  simp only [hep]
+  have hnf : Ep.nf L ep = L.query ep.tree := nf_eq L ep (hI.memo p ep hep)
+  rw [hnf, hloc p ep.tree (alookup s.db) (refLook B rec (L.imports ep.tree)) htok hagree, hexp]
+
+/-- `Settled` after the rollback `unload p` -/
+theorem settled_unload (hW : World L E B rank TreeOk) (s : St L) (p : ModPath) (Ex : List ModPath) (hI : Inv L E s)
+    (hS : Settled L E B rank TreeOk s (p :: Ex)) (hpB : p ∉ B.mods) : Settled L E B rank TreeOk (unload L E s p) Ex := by
+  have hsub := unload_sub L E s p
+  have hsrc := srcOf_congr L E s _ hsub.mainSrc
+  -- the base is a closed set that does not contain `p`
+  have hCB : ClosedSet L E s (fun x => x ∈ B.mods) := by
+    refine ⟨hS.base, ?_⟩
+    intro x hx d hd
+    simp only [depsOf, List.mem_append] at hd
+    rcases hd with hd | hd
+    · obtain ⟨t, ht, hi⟩ := importsOf_src L E s x hI (hS.base x hx)
+      rw [hi] at hd
+      have hne : x ≠ E.main := fun e => hW.main_base (e ▸ hx)
+      cases hs : srcOf L E s x with
+      | none => rw [hs] at ht; cases ht
+      | some src =>
+        rw [hs] at ht
+        have hdisk : E.disk x = some src := by
+          unfold srcOf at hs
+          cases hd' : E.disk x with
+          | some src' => rw [hd'] at hs; simpa using hs
+          | none => rw [hd'] at hs; simp [hne] at hs
+        exact hW.base_closed x hx src t hdisk (by simpa using ht) d hd
+    · by_cases hl : x ∈ E.libs
+      · simp [hl] at hd
+      · simp only [hl, if_false] at hd; exact hW.libs_base d hd
+  obtain ⟨_, hFB⟩ := unload_keeps L E (fun x => x ∈ B.mods) s p hpB hCB
+  refine ⟨hFB.mods, ?_, ?_, ?_, ?_⟩
+  · intro x hx hEx
+    have hxp : x ≠ p := fun e => unload_not_mem L E s p (e ▸ hx)
+    obtain ⟨n, T, hT, he⟩ := hS.table x (hsub.mods x hx) (by simp [hxp, hEx])
+    exact ⟨n, T, by rw [hsrc]; exact hT, by rw [hsub.table x hx]; exact he⟩
+  · intro q rows hq
+    rw [hsub.stored] at hq
+    obtain ⟨n, hn⟩ := hS.stored q rows hq
+    exact ⟨n, by rw [hsrc]; exact hn⟩
+  · intro q rows hq
+    rw [hsub.stored] at hq
+    exact hS.storedDisk q rows hq
+  · rw [hsub.mainSrc]; exact hS.mainAcyclic
+
+theorem Settled.weaken {s : St L} {p : ModPath} {Ex : List ModPath} (h : Settled L E B rank TreeOk s Ex) :
+    Settled L E B rank TreeOk s (p :: Ex) :=
+  ⟨h.base, fun x hx hEx => h.table x hx (fun e => hEx (List.mem_cons_of_mem _ e)), h.stored, h.storedDisk, h.mainAcyclic⟩
+
+
+theorem exists_common_level (srcf : ModPath → Option Src) (l : List ModPath)
+    (h : ∀ d, d ∈ l → ∃ n T, refTbl L B srcf n d = some T) : ∃ N, ∀ d, d ∈ l → ∃ T, refTbl L B srcf N d = some T := by
+  induction l with
+  | nil => exact ⟨0, fun d hd => by cases hd⟩
+  | cons a rest ih =>
+    obtain ⟨N, hN⟩ := ih (fun d hd => h d (List.mem_cons_of_mem _ hd))
+    obtain ⟨n, T, hT⟩ := h a (by simp)
+    refine ⟨max N n, ?_⟩
+    intro d hd
+    rcases List.mem_cons.1 hd with e | e
+    · subst e; exact ⟨T, refTbl_mono L B srcf (Nat.le_max_right N n) _ T hT⟩
+    · obtain ⟨Td, hTd⟩ := hN d e
+      exact ⟨Td, refTbl_mono L B srcf (Nat.le_max_left N n) d Td hTd⟩
+
 theorem loadOne_Q (hW : World L E B rank TreeOk) (rec : List ModPath → St L → Except Err Unit × St L)
     (hrec : RecSpec L E rec) (hreg : RecReg L rec) (hrecQ : RecQ L E B rank TreeOk rec)
-    (p : ModPath) (s : St L) (Ex : List ModPath) (hp : GoodName p) (hI : Inv L E s) (hM : SrcOk L s.mainSrc)
+    (p : ModPath) (s : St L) (Ex : List ModPath) (hp : GoodName p) (hI : Inv L E s) (hE : EpsSub L s) (hM : SrcOk L s.mainSrc)
     (hS : Settled L E B rank TreeOk s Ex) (hrk : ∀ a, a ∈ Ex → rank p < rank a) (hExB : ∀ a, a ∈ Ex → a ∉ B.mods)
-    (hnr : (loadOne L E rec p s).1 ≠ .error .recursion) :
-    Settled L E B rank TreeOk (loadOne L E rec p s).2 Ex ∧ (Good L B (srcOf L E s) p → (loadOne L E rec p s).1 = .ok ()) := by
+    (hnr : (loadOne L E rec (unload L E) p s).1 ≠ .error .recursion) :
+    Settled L E B rank TreeOk (loadOne L E rec (unload L E) p s).2 Ex ∧
+    (Good L B (srcOf L E s) p → (loadOne L E rec (unload L E) p s).1 = .ok ()) ∧
+    (p ∉ s.mods → ∀ n e, refErr L B (srcOf L E s) n p = some e → (loadOne L E rec (unload L E) p s).1 = .error e) := by
   unfold loadOne at hnr ⊢
   by_cases hm : p ∈ s.mods
   · simp only [hm, if_true]
-    exact ⟨hS, fun _ => trivial⟩
+    exact ⟨hS, fun _ => trivial, fun h => absurd trivial h⟩
   · simp only [hm, if_false] at hnr ⊢
     have hpB : p ∉ B.mods := fun h => hm (hS.base p h)
-    -- the libraries are registered: nothing happens
     have hlibs : (if p ∈ E.libs then ((.ok () : Except Err Unit), s) else rec E.libs s) = (.ok (), s) ∨
         (if p ∈ E.libs then ((.ok () : Except Err Unit), s) else rec E.libs s) = (.error .recursion, s) := by
       split
       · exact Or.inl rfl
       · exact hreg E.libs s (fun l hl => hS.base l (hW.libs_base l hl))
-    rcases hlibs with hl | hl
-    · rw [hl] at hnr ⊢
+    have hl : (if p ∈ E.libs then ((.ok () : Except Err Unit), s) else rec E.libs s) = (.ok (), s) := by
+      rcases hlibs with h | h
+      · exact h
+      · rw [h] at hnr; exact absurd rfl hnr
+    rw [hl] at hnr ⊢
+    simp only [hm, if_false] at hnr ⊢
+    obtain ⟨hI1, hmods1, hdb1, hcompl1, hstored1, hmain1, hdeps1, hproc1, heps1, hepsSame, hepsOk, hepsErr⟩ := epLoad_spec L E s p hI
+    have hepOk : ∀ t, (srcOf L E s p).bind L.parse = some t → (epLoad L E s p).1 = .ok () := fun t ht => epLoad_ok L E s p t hI ht
+    have hepBad : (srcOf L E s p).bind L.parse = none → (epLoad L E s p).1 = .error .syntax := epLoad_err L E s p hI hE hm
+    generalize epLoad L E s p = r1 at hI1 hmods1 hdb1 hcompl1 hstored1 hmain1 hdeps1 hproc1 heps1 hepsSame hepsOk hepsErr hepOk hepBad hnr ⊢
+    obtain ⟨r1r, s1⟩ := r1
+    simp only at hI1 hmods1 hdb1 hcompl1 hstored1 hmain1 hdeps1 hproc1 heps1 hepsSame hepsOk hepsErr hepOk hepBad hnr ⊢
+    have hsrc1 := srcOf_congr L E s s1 hmain1
+    cases r1r with
+    | error e =>
       simp only at hnr ⊢
-      obtain ⟨hI1, hmods1, hdb1, hcompl1, hstored1, hmain1, hdeps1, hproc1, heps1, hepsSame, hepsOk, hepsErr⟩ := epLoad_spec L E s p hI
-      have hepOk : Good L B (srcOf L E s) p → (epLoad L E s p).1 = .ok () := by
-        rintro ⟨n, T, hT⟩
+      have heq : s1.eps = s.eps := hepsErr e rfl
+      have hnone : (srcOf L E s p).bind L.parse = none := by
+        cases h : (srcOf L E s p).bind L.parse with
+        | none => rfl
+        | some t => have := hepOk t h; cases this
+      have he : e = .syntax := by have := hepBad hnone; cases this; rfl
+      refine ⟨?_, ?_, ?_⟩
+      · refine ⟨fun b hb => hmods1 ▸ hS.base b hb, ?_, ?_, hstored1 ▸ hS.storedDisk, hmain1 ▸ hS.mainAcyclic⟩
+        · intro x hx hEx
+          obtain ⟨n, T, hT, hTe⟩ := hS.table x (hmods1 ▸ hx) hEx
+          exact ⟨n, T, by rw [hsrc1]; exact hT, by rw [hdb1]; exact hTe⟩
+        · intro q rows hq
+          rw [hstored1] at hq
+          obtain ⟨n, hn⟩ := hS.stored q rows hq
+          exact ⟨n, by rw [hsrc1]; exact hn⟩
+      · rintro ⟨n, T, hT⟩
         obtain ⟨m, src, t, ins, _, hsrc, hparse, _⟩ := refTbl_step L B hpB hT
-        exact epLoad_ok L E s p t hI (by rw [hsrc]; simpa using hparse)
-      generalize epLoad L E s p = r1 at hI1 hmods1 hdb1 hcompl1 hstored1 hmain1 hdeps1 hproc1 heps1 hepsSame hepsOk hepsErr hepOk hnr ⊢
-      obtain ⟨r1r, s1⟩ := r1
-      simp only at hI1 hmods1 hdb1 hcompl1 hstored1 hmain1 hdeps1 hproc1 heps1 hepsSame hepsOk hepsErr hepOk hnr ⊢
-      have hsrc1 := srcOf_congr L E s s1 hmain1
-      cases r1r with
-      | error e =>
-        simp only at hnr ⊢
-        refine ⟨?_, fun hG => by have := hepOk hG; cases this⟩
-        have heq : s1.eps = s.eps := hepsErr e rfl
-        refine ⟨fun b hb => hmods1 ▸ hS.base b hb, ?_, ?_, ?_, hstored1 ▸ hS.storedDisk, hmain1 ▸ hS.mainAcyclic⟩
-        · intro x hx hEx n T hT
-          rw [hsrc1] at hT; rw [hdb1]
-          exact hS.table x (hmods1 ▸ hx) hEx n T hT
-        · intro x hx hEx hG ep hep d hd
-          rw [hsrc1] at hG; rw [heq] at hep; rw [hmods1]
-          exact hS.closed x (hmods1 ▸ hx) hEx hG ep hep d hd
-        · intro q rows hq n T hT
-          rw [hsrc1] at hT; rw [hstored1] at hq
-          exact hS.stored q rows hq n T hT
-      | ok u1 =>
-        simp only at hnr ⊢
-        -- registration
-        have hI2 : Inv L E { s1 with mods := addIfAbsent s1.mods p } := by
-          refine ⟨hI1.memo, hI1.tree, hI1.ast, ?_, hI1.stored, ?_, ?_⟩
-          · intro k v hkv; exact mem_addIfAbsent.2 (Or.inl (hI1.tags k v hkv))
-          · intro x hx; exact mem_addIfAbsent.2 (Or.inl (hI1.completed x hx))
-          · intro x hx
-            rcases mem_addIfAbsent.1 hx with h | h
-            · exact hI1.eps x h
-            · exact h ▸ hepsOk rfl
-        have hM2 : SrcOk L ({ s1 with mods := addIfAbsent s1.mods p } : St L).mainSrc := by
-          simp only; rw [hmain1]; exact hM
-        have hS2 : Settled L E B rank TreeOk { s1 with mods := addIfAbsent s1.mods p } (p :: Ex) := by
-          apply Settled.register L E B rank TreeOk hS
-          · intro x; simp only; rw [mem_addIfAbsent, hmods1]
-          · exact hdb1
-          · exact hstored1
-          · exact hmain1
-          · exact heps1
-        have hp2 : p ∈ addIfAbsent s1.mods p := mem_addIfAbsent.2 (Or.inr rfl)
-        obtain ⟨ep, hep⟩ := (ahas_iff _ _).1 (hepsOk rfl)
-        simp only [hep] at hnr ⊢
-        obtain ⟨htok, hrkp⟩ := imports_rank L E B rank TreeOk hW _ p ep hI2 hS2.mainAcyclic hep
-        have hnames := imports_good L E hW.names _ p ep hI2 hM2 hep
-        have h3 := hrec (L.imports ep.tree) _ hnames hI2 hM2
-        have hQ3 := hrecQ (L.imports ep.tree) _ (p :: Ex) hnames hI2 hM2 hS2
-          (by
-            intro d hd a ha
-            rcases List.mem_cons.1 ha with e | e
-            · subst e; exact hrkp d hd
-            · exact Nat.lt_trans (hrkp d hd) (hrk a e))
-          (by
-            intro a ha
-            rcases List.mem_cons.1 ha with e | e
-            · subst e; exact hpB
-            · exact hExB a e)
-        have hsrc2 : srcOf L E ({ s1 with mods := addIfAbsent s1.mods p } : St L) = srcOf L E s := by
-          rw [← hsrc1]; rfl
-        rw [hsrc2] at hQ3
-        generalize rec (L.imports ep.tree) { s1 with mods := addIfAbsent s1.mods p } = r3 at h3 hQ3 hnr ⊢
-        obtain ⟨r3r, s3⟩ := r3
-        obtain ⟨hI3, hF23, hok3, _⟩ := h3
-        simp only at hI3 hF23 hok3 hQ3 hnr ⊢
-        have hmain3 : s3.mainSrc = s.mainSrc := hF23.mainSrc.trans hmain1
-        have hsrc3 := srcOf_congr L E s s3 hmain3
-        -- what goodness of p says
-        have hgoodImports : Good L B (srcOf L E s) p → ∀ d, d ∈ L.imports ep.tree → Good L B (srcOf L E s) d := by
-          rintro ⟨n, T, hT⟩ d hd
-          obtain ⟨m, src, t, ins, _, hsrc, hparse, hdeps, _⟩ := refTbl_step L B hpB hT
-          have htree := hI2.tree p ep hep
-          rw [hsrc2, hsrc] at htree
-          have : t = ep.tree := by simpa [hparse] using htree
-          subst this
-          obtain ⟨Td, hTd⟩ := hdeps d hd
-          exact ⟨m, Td, hTd⟩
-        cases r3r with
-        | error e =>
-          simp only at hnr ⊢
-          obtain ⟨hS3, hok3'⟩ := hQ3 (by intro h; cases h; exact hnr rfl)
-          have hnotGood : ¬ Good L B (srcOf L E s) p := by
-            intro hG
-            have := hok3' (hgoodImports hG)
-            cases this
-          refine ⟨Settled.drop L E B rank TreeOk hS3 (by rw [hsrc3]; exact hnotGood), fun hG => absurd hG hnotGood⟩
-        | ok u3 =>
-          simp only at hnr ⊢
-          obtain ⟨hS3, _⟩ := hQ3 (by intro h; cases h)
-          have hp3 : p ∈ s3.mods := hF23.mods p hp2
-          have hep3 : alookup s3.eps p = some ep := by rw [hF23.eps p hp2]; exact hep
-          obtain ⟨hI4, hT4⟩ := preprocess_spec L E s3 p hp hI3 hp3
-          have hempty : tableOf s3.db p = [] := by
-            rw [hF23.table p hp2]
-            simp only
-            rw [hdb1]
-            exact tableOf_nil_of_unregistered L E s p hI hm
-          -- the good case
-          have hmain : Good L B (srcOf L E s) p →
-              (preprocess L E s3 p).1 = .ok () ∧
-              (∀ n T, refTbl L B (srcOf L E s) n p = some T → tableOf (preprocess L E s3 p).2.db p = T) ∧
-              (∀ d, d ∈ L.imports ep.tree → d ∈ s3.mods) := by
-            rintro ⟨n, T, hT⟩
-            obtain ⟨m, src, t, ins, hn, hsrc, hparse, hdeps, hexp, hTeq⟩ := refTbl_step L B hpB hT
-            have htree := hI2.tree p ep hep
-            rw [hsrc2, hsrc] at htree
-            have : t = ep.tree := by simpa [hparse] using htree
+        rw [hsrc] at hnone
+        simp [hparse] at hnone
+      · intro _ n e' he'
+        subst he
+        cases n with
+        | zero => simp [refErr] at he'
+        | succ n =>
+          simp only [refErr, hpB, if_false] at he'
+          cases hs : srcOf L E s p with
+          | none => rw [hs] at he'; simp only at he'; cases he'; rfl
+          | some src =>
+            rw [hs] at he' hnone
+            have hp' : L.parse src = none := by simpa using hnone
+            simp only [hp'] at he'
+            cases he'; rfl
+    | ok u1 =>
+      simp only at hnr ⊢
+      -- registration
+      have hI2 : Inv L E { s1 with mods := addIfAbsent s1.mods p } := by
+        refine ⟨hI1.memo, hI1.tree, hI1.ast, ?_, hI1.stored, ?_, ?_⟩
+        · intro k v hkv; exact mem_addIfAbsent.2 (Or.inl (hI1.tags k v hkv))
+        · intro x hx; exact mem_addIfAbsent.2 (Or.inl (hI1.completed x hx))
+        · intro x hx
+          rcases mem_addIfAbsent.1 hx with h | h
+          · exact hI1.eps x h
+          · exact h ▸ hepsOk rfl
+      have hE2 : EpsSub L ({ s1 with mods := addIfAbsent s1.mods p } : St L) := by
+        intro x hx
+        simp only at hx ⊢
+        by_cases hxp : x = p
+        · exact mem_addIfAbsent.2 (Or.inr hxp)
+        · refine mem_addIfAbsent.2 (Or.inl ?_)
+          rw [hmods1]
+          apply hE
+          rw [ahas_iff] at hx ⊢
+          rw [← heps1 x hxp]; exact hx
+      have hM2 : SrcOk L ({ s1 with mods := addIfAbsent s1.mods p } : St L).mainSrc := by
+        simp only; rw [hmain1]; exact hM
+      have hsrc2 : srcOf L E ({ s1 with mods := addIfAbsent s1.mods p } : St L) = srcOf L E s := by
+        rw [← hsrc1]; rfl
+      have hS2 : Settled L E B rank TreeOk { s1 with mods := addIfAbsent s1.mods p } (p :: Ex) := by
+        refine ⟨fun b hb => mem_addIfAbsent.2 (Or.inl (hmods1 ▸ hS.base b hb)), ?_, ?_, hstored1 ▸ hS.storedDisk, hmain1 ▸ hS.mainAcyclic⟩
+        · intro x hx hEx
+          simp only [List.mem_cons, not_or] at hEx
+          simp only at hx
+          rcases mem_addIfAbsent.1 hx with h | h
+          · obtain ⟨n, T, hT, hTe⟩ := hS.table x (hmods1 ▸ h) hEx.2
+            exact ⟨n, T, by rw [hsrc2]; exact hT, by simp only; rw [hdb1]; exact hTe⟩
+          · exact absurd h hEx.1
+        · intro q rows hq
+          simp only at hq
+          rw [hstored1] at hq
+          obtain ⟨n, hn⟩ := hS.stored q rows hq
+          exact ⟨n, by rw [hsrc2]; exact hn⟩
+      have hp2 : p ∈ addIfAbsent s1.mods p := mem_addIfAbsent.2 (Or.inr rfl)
+      obtain ⟨ep, hep⟩ := (ahas_iff _ _).1 (hepsOk rfl)
+      simp only [hep] at hnr ⊢
+      obtain ⟨htok, hrkp⟩ := imports_rank L E B rank TreeOk hW _ p ep hI2 hS2.mainAcyclic hep
+      have hnames := imports_good L E hW.names _ p ep hI2 hM2 hep
+      have htree : (srcOf L E s p).bind L.parse = some ep.tree := by
+        have := hI2.tree p ep hep; rw [hsrc2] at this; exact this
+      have h3 := hrec (L.imports ep.tree) _ hnames hI2 hM2
+      have hQ3 := hrecQ (L.imports ep.tree) _ (p :: Ex) hnames hI2 hE2 hM2 hS2
+        (by
+          intro d hd a ha
+          rcases List.mem_cons.1 ha with e | e
+          · subst e; exact hrkp d hd
+          · exact Nat.lt_trans (hrkp d hd) (hrk a e))
+        (by
+          intro a ha
+          rcases List.mem_cons.1 ha with e | e
+          · subst e; exact hpB
+          · exact hExB a e)
+      rw [hsrc2] at hQ3
+      generalize rec (L.imports ep.tree) { s1 with mods := addIfAbsent s1.mods p } = r3 at h3 hQ3 hnr ⊢
+      obtain ⟨r3r, s3⟩ := r3
+      obtain ⟨hI3, hG23, hE23, hok23, _, _⟩ := h3
+      simp only at hI3 hG23 hE23 hok23 hQ3 hnr ⊢
+      have hmain3 : s3.mainSrc = s.mainSrc := hG23.mainSrc.trans hmain1
+      have hsrc3 := srcOf_congr L E s s3 hmain3
+      -- what the reference says about `p`
+      have hgoodStep : ∀ n T, refTbl L B (srcOf L E s) n p = some T → ∃ m ins, n = m + 1 ∧
+          (∀ d, d ∈ L.imports ep.tree → ∃ Td, refTbl L B (srcOf L E s) m d = some Td) ∧
+          L.expand p (L.query ep.tree) (refLook B (refTbl L B (srcOf L E s) m) (L.imports ep.tree)) = (ins, none) ∧
+          T = extendRows L (aaddAll [] (rowsOf p ins)) := by
+        intro n T hT
+        obtain ⟨m, src, t, ins, hn, hsrc, hparse, hdeps, hexp, hTeq⟩ := refTbl_step L B hpB hT
+        rw [hsrc] at htree
+        have : t = ep.tree := by simpa [hparse] using htree
+        subst this
+        exact ⟨m, ins, hn, hdeps, hexp, hTeq⟩
+      have herrStep : ∀ n e, refErr L B (srcOf L E s) (n + 1) p = some e →
+          (scanErr (fun d => (refTbl L B (srcOf L E s) n d).isSome) (refErr L B (srcOf L E s) n) (L.imports ep.tree) = some (some e)) ∨
+          (scanErr (fun d => (refTbl L B (srcOf L E s) n d).isSome) (refErr L B (srcOf L E s) n) (L.imports ep.tree) = some none ∧
+            (L.expand p (L.query ep.tree) (refLook B (refTbl L B (srcOf L E s) n) (L.imports ep.tree))).2 = some e) := by
+        intro n e he
+        simp only [refErr, hpB, if_false] at he
+        cases hs : srcOf L E s p with
+        | none => rw [hs] at htree; cases htree
+        | some src =>
+          rw [hs] at he htree
+          cases hp' : L.parse src with
+          | none => simp [hp'] at htree
+          | some t =>
+            have : t = ep.tree := by simpa [hp'] using htree
             subst this
-            have himpMods : ∀ d, d ∈ L.imports (ep.tree) → d ∈ s3.mods := hok3 rfl
-            have hnotEx : ∀ d, d ∈ L.imports ep.tree → d ∉ p :: Ex := by
-              intro d hd hmem
-              rcases List.mem_cons.1 hmem with e | e
-              · have := hrkp d hd; rw [e] at this; exact Nat.lt_irrefl _ this
-              · exact Nat.lt_irrefl _ (Nat.lt_trans (hrkp d hd) (hrk d e))
-            have hagree : ∀ k, (modOf k = p ∨ modOf k ∈ L.imports ep.tree ∨ modOf k ∈ B.mods) →
-                alookup s3.db k = refLook B (refTbl L B (srcOf L E s) m) (L.imports ep.tree) k := by
-              intro k hk
-              unfold refLook
-              by_cases hkp : modOf k = p
-              · rw [alookup_none_of_table_nil s3.db p k hkp hempty]
-                have h1 : ¬ (modOf k ∈ L.imports ep.tree ∨ modOf k ∈ B.mods) := by
-                  rw [hkp]
-                  rintro (h | h)
-                  · exact Nat.lt_irrefl _ (hrkp p h)
-                  · exact hpB h
-                simp only [h1, if_false]
-              · rcases hk with hk | hk | hk
-                · exact absurd hk hkp
-                · obtain ⟨Td, hTd⟩ := hdeps _ hk
-                  have htab := hS3.table _ (himpMods _ hk) (hnotEx _ hk) m Td (by rw [hsrc3]; exact hTd)
-                  simp only [hk, true_or, if_true, hTd, Option.bind]
-                  rw [← alookup_tableOf s3.db (modOf k) k rfl, htab]
-                · have hb : modOf k ∉ p :: Ex := by
-                    intro hmem
-                    rcases List.mem_cons.1 hmem with e | e
-                    · exact hkp e
-                    · exact hExB _ e hk
-                  have hTb := refTbl_base L B (srcOf L E s) m _ hk
-                  have htab := hS3.table _ (hS3.base _ hk) hb m _ (by rw [hsrc3]; exact hTb)
-                  simp only [hk, or_true, if_true, hTb, Option.bind]
-                  rw [← alookup_tableOf s3.db (modOf k) k rfl, htab]
-            have hstored : ∀ rows, alookup s3.stored p = some rows → rows = extendRows L (aaddAll [] (rowsOf p ins)) := by
-              intro rows hrows
-              rw [← hTeq]
-              exact hS3.stored p rows hrows n T (by rw [hsrc3]; exact hT)
-            obtain ⟨hokp, htabp⟩ := preprocess_good L E B TreeOk hW.local_expand s3 p hp hI3 ep hep3 htok hempty _ hagree ins hexp hstored
-            refine ⟨hokp, ?_, himpMods⟩
-            intro n' T' hT'
-            rw [htabp, ← hTeq]
-            exact refTbl_unique L B (srcOf L E s) p T T' hT hT'
-          have hst := preprocess_stored L E s3 p
-          generalize preprocess L E s3 p = r4 at hI4 hT4 hmain hst hnr ⊢
+            simp only [hp'] at he
+            cases hsc : scanErr (fun d => (refTbl L B (srcOf L E s) n d).isSome) (refErr L B (srcOf L E s) n) (L.imports ep.tree) with
+            | none => rw [hsc] at he; cases he
+            | some r =>
+              rw [hsc] at he
+              cases r with
+              | some e' => simp only at he; cases he; exact Or.inl rfl
+              | none => simp only at he; exact Or.inr ⟨rfl, he⟩
+      cases r3r with
+      | error e3 =>
+        simp only at hnr ⊢
+        obtain ⟨hS3, hok3', herr3⟩ := hQ3 (by intro h; cases h; exact hnr rfl)
+        refine ⟨settled_unload L E B rank TreeOk hW s3 p Ex hI3 hS3 hpB, ?_, ?_⟩
+        · rintro ⟨n, T, hT⟩
+          obtain ⟨m, ins, _, hdeps, _, _⟩ := hgoodStep n T hT
+          have := hok3' (fun d hd => by obtain ⟨Td, hTd⟩ := hdeps d hd; exact ⟨m, Td, hTd⟩)
+          cases this
+        · intro _ n e he
+          cases n with
+          | zero => simp [refErr] at he
+          | succ n =>
+            rcases herrStep n e he with hsc | ⟨hsc, _⟩
+            · have := herr3 n e hsc
+              cases this; rfl
+            · have hall := scanErr_some_none hsc
+              have := hok3' (fun d hd => by
+                have := hall d hd
+                cases hd' : refTbl L B (srcOf L E s) n d with
+                | none => rw [hd'] at this; cases this
+                | some Td => exact ⟨n, Td, hd'⟩)
+              cases this
+      | ok u3 =>
+        simp only at hnr ⊢
+        obtain ⟨hS3, _, herr3⟩ := hQ3 (by intro h; cases h)
+        obtain ⟨hF23, himp3⟩ := hok23 rfl
+        have hp3 : p ∈ s3.mods := hF23.mods p hp2
+        have hep3 : alookup s3.eps p = some ep := by rw [hF23.eps p hp2]; exact hep
+        obtain ⟨hI4, hT4⟩ := preprocess_spec L E s3 p hp hI3 hp3
+        have hempty : tableOf s3.db p = [] := by
+          rw [hF23.table p hp2]
+          simp only
+          rw [hdb1]
+          exact tableOf_nil_of_unregistered L E s p hI hm
+        have hnotEx : ∀ d, d ∈ L.imports ep.tree → d ∉ p :: Ex := by
+          intro d hd hmem
+          rcases List.mem_cons.1 hmem with e | e
+          · have := hrkp d hd; rw [e] at this; exact Nat.lt_irrefl _ this
+          · exact Nat.lt_irrefl _ (Nat.lt_trans (hrkp d hd) (hrk d e))
+        -- all imports are registered, hence good: take a common depth
+        obtain ⟨N, hN⟩ := exists_common_level L B (srcOf L E s) (L.imports ep.tree) (fun d hd => by
+          obtain ⟨n, T, hT, _⟩ := hS3.table d (himp3 d hd) (hnotEx d hd)
+          exact ⟨n, T, by rw [← hsrc3]; exact hT⟩)
+        have hagree : ∀ k, (modOf k = p ∨ modOf k ∈ L.imports ep.tree ∨ modOf k ∈ B.mods) →
+            alookup s3.db k = refLook B (refTbl L B (srcOf L E s) N) (L.imports ep.tree) k := by
+          intro k hk
+          unfold refLook
+          by_cases hkp : modOf k = p
+          · rw [alookup_none_of_table_nil s3.db p k hkp hempty]
+            have h1 : ¬ (modOf k ∈ L.imports ep.tree ∨ modOf k ∈ B.mods) := by
+              rw [hkp]
+              rintro (h | h)
+              · exact Nat.lt_irrefl _ (hrkp p h)
+              · exact hpB h
+            simp only [h1, if_false]
+          · rcases hk with hk | hk | hk
+            · exact absurd hk hkp
+            · obtain ⟨Td, hTd⟩ := hN _ hk
+              have htab := hS3.tableEq L E B rank TreeOk _ (himp3 _ hk) (hnotEx _ hk) N Td (by rw [hsrc3]; exact hTd)
+              simp only [hk, true_or, if_true, hTd, Option.bind]
+              rw [← alookup_tableOf s3.db (modOf k) k rfl, htab]
+            · have hb : modOf k ∉ p :: Ex := by
+                intro hmem
+                rcases List.mem_cons.1 hmem with e | e
+                · exact hkp e
+                · exact hExB _ e hk
+              have hTb := refTbl_base L B (srcOf L E s) N _ hk
+              have htab := hS3.tableEq L E B rank TreeOk _ (hS3.base _ hk) hb N _ (by rw [hsrc3]; exact hTb)
+              simp only [hk, or_true, if_true, hTb, Option.bind]
+              rw [← alookup_tableOf s3.db (modOf k) k rfl, htab]
+        -- the look of any depth at which the imports are defined is this look
+        have hlookEq : ∀ m, (∀ d, d ∈ L.imports ep.tree → ∃ Td, refTbl L B (srcOf L E s) m d = some Td) →
+            refLook B (refTbl L B (srcOf L E s) m) (L.imports ep.tree) = refLook B (refTbl L B (srcOf L E s) N) (L.imports ep.tree) := by
+          intro m hm'
+          apply refLook_eq_of_defined
+          intro d hd
+          obtain ⟨Td, hTd⟩ := hm' d hd
+          obtain ⟨Td', hTd'⟩ := hN d hd
+          exact ⟨by rw [hTd]; rfl, by rw [hTd']; rfl⟩
+        have hst := preprocess_stored L E s3 p
+        generalize hexpN : L.expand p (L.query ep.tree) (refLook B (refTbl L B (srcOf L E s) N) (L.imports ep.tree)) = rN at *
+        obtain ⟨ins, errN⟩ := rN
+        cases errN with
+        | none =>
+          -- `p` is good at depth N + 1
+          have hTN : refTbl L B (srcOf L E s) (N + 1) p = some (extendRows L (aaddAll [] (rowsOf p ins))) := by
+            rw [refTbl_succ_eq, if_neg hpB]
+            cases hs : srcOf L E s p with
+            | none => rw [hs] at htree; cases htree
+            | some src =>
+              rw [hs] at htree
+              simp only [Option.bind]
+              unfold refStep
+              cases hp' : L.parse src with
+              | none => simp [hp'] at htree
+              | some t =>
+                have : t = ep.tree := by simpa [hp'] using htree
+                subst this
+                simp only
+                have hall : (L.imports ep.tree).all (fun d => (refTbl L B (srcOf L E s) N d).isSome) = true := by
+                  rw [List.all_eq_true]
+                  intro d hd
+                  obtain ⟨Td, hTd⟩ := hN d hd
+                  rw [hTd]; rfl
+                rw [if_pos hall, hexpN]
+          have hstored : ∀ rows, alookup s3.stored p = some rows → rows = extendRows L (aaddAll [] (rowsOf p ins)) := by
+            intro rows hrows
+            obtain ⟨n, hn⟩ := hS3.stored p rows hrows
+            rw [hsrc3] at hn
+            exact refTbl_unique L B (srcOf L E s) p _ _ hn hTN
+          obtain ⟨hokp, htabp⟩ := preprocess_good L E B TreeOk hW.local_expand s3 p hp hI3 ep hep3 htok hempty _ hagree ins hexpN hstored
+          generalize preprocess L E s3 p = r4 at hI4 hT4 hst hokp htabp hnr ⊢
           obtain ⟨r4r, s4⟩ := r4
-          simp only at hI4 hT4 hmain hst hnr ⊢
-          refine ⟨?_, fun hG => (hmain hG).1⟩
-          apply settled_after_preprocess L E B rank TreeOk hS3 hT4 hst
-          rw [hsrc3]
-          intro hG
-          obtain ⟨_, htab, himp⟩ := hmain hG
-          refine ⟨htab, ?_⟩
-          intro ep' hep' d hd
-          have h1 := hI4.tree p ep' hep'
-          have h2 := hI3.tree p ep hep3
-          rw [srcOf_congr L E s3 s4 hT4.mainSrc, h2] at h1
-          have : ep.tree = ep'.tree := by simpa using h1
-          rw [hT4.mods]
-          exact himp d (this ▸ hd)
-    · rw [hl] at hnr
-      exact absurd rfl hnr
+          simp only at hI4 hT4 hst hokp htabp hnr ⊢
+          subst hokp
+          simp only
+          have hsrc4 : srcOf L E s4 = srcOf L E s := by
+            rw [srcOf_congr L E s3 s4 hT4.mainSrc, hsrc3]
+          refine ⟨?_, fun _ => trivial, ?_⟩
+          · refine ⟨fun b hb => hT4.mods ▸ hS3.base b hb, ?_, ?_, ?_, hT4.mainSrc ▸ hS3.mainAcyclic⟩
+            · intro x hx hEx
+              by_cases e : x = p
+              · subst e
+                exact ⟨N + 1, _, by rw [hsrc4]; exact hTN, htabp⟩
+              · obtain ⟨n, T, hT, hTe⟩ := hS3.table x (hT4.mods ▸ hx) (by simp [e, hEx])
+                exact ⟨n, T, by rw [hsrc4, ← hsrc3]; exact hT, by rw [hT4.table x e]; exact hTe⟩
+            · intro q rows hq
+              rcases hst q rows hq with h | ⟨e, _, h, _⟩
+              · obtain ⟨n, hn⟩ := hS3.stored q rows h
+                exact ⟨n, by rw [hsrc4, ← hsrc3]; exact hn⟩
+              · subst e
+                exact ⟨N + 1, by rw [hsrc4, h, htabp]; exact hTN⟩
+            · intro q rows hq
+              rcases hst q rows hq with h | ⟨e, h, _, _⟩
+              · exact hS3.storedDisk q rows h
+              · exact e ▸ h
+          · intro _ n e he
+            exact absurd hTN (fun h => good_not_err L B (srcOf L E s) n p e he (N + 1) _ h)
+        | some eN =>
+          have hstoredNone : alookup s3.stored p = none := by
+            cases hq : alookup s3.stored p with
+            | none => rfl
+            | some rows =>
+              obtain ⟨n, hn⟩ := hS3.stored p rows hq
+              rw [hsrc3] at hn
+              obtain ⟨m, ins', _, hdeps, hexp, _⟩ := hgoodStep n rows hn
+              rw [hlookEq m hdeps, hexpN] at hexp
+              cases hexp
+          have hbad := preprocess_bad L E B TreeOk hW.local_expand s3 p hI3 ep hep3 htok hempty _ hagree eN (by rw [hexpN]) hstoredNone
+          generalize preprocess L E s3 p = r4 at hI4 hT4 hst hbad hnr ⊢
+          obtain ⟨r4r, s4⟩ := r4
+          simp only at hI4 hT4 hst hbad hnr ⊢
+          subst hbad
+          simp only
+          have hsrc4 : srcOf L E s4 = srcOf L E s := by
+            rw [srcOf_congr L E s3 s4 hT4.mainSrc, hsrc3]
+          have hS4 : Settled L E B rank TreeOk s4 (p :: Ex) := by
+            refine ⟨fun b hb => hT4.mods ▸ hS3.base b hb, ?_, ?_, ?_, hT4.mainSrc ▸ hS3.mainAcyclic⟩
+            · intro x hx hEx
+              simp only [List.mem_cons, not_or] at hEx
+              obtain ⟨n, T, hT, hTe⟩ := hS3.table x (hT4.mods ▸ hx) (by simp [hEx.1, hEx.2])
+              exact ⟨n, T, by rw [hsrc4, ← hsrc3]; exact hT, by rw [hT4.table x hEx.1]; exact hTe⟩
+            · intro q rows hq
+              rcases hst q rows hq with h | ⟨_, _, _, h⟩
+              · obtain ⟨n, hn⟩ := hS3.stored q rows h
+                exact ⟨n, by rw [hsrc4, ← hsrc3]; exact hn⟩
+              · cases h
+            · intro q rows hq
+              rcases hst q rows hq with h | ⟨_, _, _, h⟩
+              · exact hS3.storedDisk q rows h
+              · cases h
+          refine ⟨settled_unload L E B rank TreeOk hW s4 p Ex hI4 hS4 hpB, ?_, ?_⟩
+          · rintro ⟨n, T, hT⟩
+            obtain ⟨m, ins', _, hdeps, hexp, _⟩ := hgoodStep n T hT
+            rw [hlookEq m hdeps, hexpN] at hexp
+            cases hexp
+          · intro _ n e he
+            cases n with
+            | zero => simp [refErr] at he
+            | succ n =>
+              rcases herrStep n e he with hsc | ⟨hsc, hex⟩
+              · have := herr3 n e hsc
+                cases this
+              · have hall := scanErr_some_none hsc
+                have hdef : ∀ d, d ∈ L.imports ep.tree → ∃ Td, refTbl L B (srcOf L E s) n d = some Td := by
+                  intro d hd
+                  have := hall d hd
+                  cases hd' : refTbl L B (srcOf L E s) n d with
+                  | none => rw [hd'] at this; cases this
+                  | some Td => exact ⟨Td, rfl⟩
+                rw [hlookEq n hdef, hexpN] at hex
+                simp only [Option.some.injEq] at hex
+                rw [hex]
 
 theorem loadAll_Q (hW : World L E B rank TreeOk) : ∀ f, RecQ L E B rank TreeOk (loadAll L E f) := by
   intro f
   induction f with
   | zero =>
-    intro ps s Ex _ _ _ hS _ _ hnr
+    intro ps s Ex _ _ _ _ hS _ _ hnr
     cases ps with
-    | nil => exact ⟨hS, fun _ => rfl⟩
+    | nil => exact ⟨hS, fun _ => rfl, fun n e h => by simp [scanErr] at h⟩
     | cons p ps => exact absurd rfl hnr
   | succ f ih =>
-    intro ps s Ex hps hI hM hS hrk hExB hnr
+    intro ps s Ex hps hI hE hM hS hrk hExB hnr
     cases ps with
-    | nil => exact ⟨hS, fun _ => rfl⟩
+    | nil => exact ⟨hS, fun _ => rfl, fun n e h => by simp [scanErr] at h⟩
     | cons p ps =>
       simp only [loadAll] at hnr ⊢
       have h1 := loadOne_inv L E hW.names (loadAll L E f) (loadAll_inv L E hW.names f) p s (hps p (by simp)) hI hM
       have hQ1 := loadOne_Q L E B rank TreeOk hW (loadAll L E f) (loadAll_inv L E hW.names f) (loadAll_registered L E f) ih
-        p s Ex (hps p (by simp)) hI hM hS (fun a ha => hrk p (by simp) a ha) hExB
-      generalize loadOne L E (loadAll L E f) p s = r1 at h1 hQ1 hnr ⊢
+        p s Ex (hps p (by simp)) hI hE hM hS (fun a ha => hrk p (by simp) a ha) hExB
+      -- a registered module has no reference error
+      have hreg : p ∈ s.mods → ∀ n e, refErr L B (srcOf L E s) n p = some e → False := by
+        intro hpm n e he
+        by_cases hpe : p ∈ Ex
+        · exact Nat.lt_irrefl _ (hrk p (by simp) p hpe)
+        · obtain ⟨m, T, hT, _⟩ := hS.table p hpm hpe
+          exact good_not_err L B _ n p e he m T hT
+      generalize loadOne L E (loadAll L E f) (unload L E) p s = r1 at h1 hQ1 hnr ⊢
       obtain ⟨r1r, s1⟩ := r1
-      obtain ⟨hI1, hF1, _, _⟩ := h1
-      simp only at hI1 hF1 hQ1 hnr ⊢
+      obtain ⟨hI1, hG1, hE1, _, _, _⟩ := h1
+      simp only at hI1 hG1 hE1 hQ1 hnr ⊢
       cases r1r with
       | error e =>
         simp only at hnr ⊢
-        obtain ⟨hS1, hG1⟩ := hQ1 hnr
-        exact ⟨hS1, fun hG => hG1 (hG p (by simp))⟩
+        obtain ⟨hS1, hG, hEr⟩ := hQ1 hnr
+        refine ⟨hS1, fun hG' => hG (hG' p (by simp)), ?_⟩
+        intro n e' hsc
+        simp only [scanErr] at hsc
+        by_cases hg : (refTbl L B (srcOf L E s) n p).isSome = true
+        · cases hT : refTbl L B (srcOf L E s) n p with
+          | none => rw [hT] at hg; cases hg
+          | some T => have := hG ⟨n, T, hT⟩; cases this
+        · simp only [hg, if_false, Bool.false_eq_true] at hsc
+          cases he : refErr L B (srcOf L E s) n p with
+          | none => rw [he] at hsc; cases hsc
+          | some e'' =>
+            rw [he] at hsc
+            simp only [Option.map, Option.some.injEq] at hsc
+            subst hsc
+            by_cases hpm : p ∈ s.mods
+            · exact absurd he (fun h => hreg hpm n e'' h)
+            · exact hEr hpm n e'' he
       | ok u =>
         simp only at hnr ⊢
-        obtain ⟨hS1, _⟩ := hQ1 (by intro h; cases h)
-        have hsrc1 := srcOf_congr L E s s1 hF1.mainSrc
-        obtain ⟨hS2, hG2⟩ := ih ps s1 Ex (fun q hq => hps q (List.mem_cons_of_mem _ hq)) hI1 (hF1.mainSrc ▸ hM) hS1
+        obtain ⟨hS1, _, hEr⟩ := hQ1 (by intro h; cases h)
+        have hsrc1 := srcOf_congr L E s s1 hG1.mainSrc
+        obtain ⟨hS2, hG2, hEr2⟩ := ih ps s1 Ex (fun q hq => hps q (List.mem_cons_of_mem _ hq)) hI1 (hE1 hE) (hG1.mainSrc ▸ hM) hS1
           (fun q hq a ha => hrk q (List.mem_cons_of_mem _ hq) a ha) hExB hnr
-        refine ⟨hS2, fun hG => hG2 ?_⟩
-        intro q hq
-        rw [hsrc1]
-        exact hG q (List.mem_cons_of_mem _ hq)
+        refine ⟨hS2, fun hG => hG2 ?_, ?_⟩
+        · intro q hq
+          rw [hsrc1]
+          exact hG q (List.mem_cons_of_mem _ hq)
+        · intro n e hsc
+          simp only [scanErr] at hsc
+          by_cases hg : (refTbl L B (srcOf L E s) n p).isSome = true
+          · simp only [hg, if_true] at hsc
+            apply hEr2 n e
+            rw [hsrc1]; exact hsc
+          · simp only [hg, if_false, Bool.false_eq_true] at hsc
+            cases he : refErr L B (srcOf L E s) n p with
+            | none => rw [he] at hsc; cases hsc
+            | some e'' =>
+              by_cases hpm : p ∈ s.mods
+              · exact absurd he (fun h => hreg hpm n e'' h)
+              · have := hEr hpm n e'' he
+                cases this
 
-/-! ## operations keep the registered good modules settled -/
+/-! ## operations keep the registered modules settled -/
 
 /-- the reference tables of modules other than the in-memory one do not depend on its source -/
 theorem refTbl_main_indep (hW : World L E B rank TreeOk) (s s' : St L) : ∀ n x, x ≠ E.main →
@@ -864,159 +1400,66 @@ theorem refTbl_main_indep (hW : World L E B rank TreeOk) (s s' : St L) : ∀ n x
             · simp only [hk, if_false]
           rw [hall, hlook]
 
-/-- touching the memo tables and the stacks changes nothing that `Settled` looks at -/
-theorem Settled.touch {s : St L} {Ex : List ModPath} (h : Settled L E B rank TreeOk s Ex) (m : ModPath) (ep : Ep Tree NV)
-    (hep : alookup s.eps m = some ep) (d : List (List Str)) (pr : List (List Text)) :
-    Settled L E B rank TreeOk { s with eps := aset s.eps m (Ep.touch L ep), deps := d, proc := pr } Ex := by
-  refine ⟨h.base, h.table, ?_, h.stored, h.storedDisk, h.mainAcyclic⟩
-  intro x hx hEx hG ep' hep' d' hd'
-  simp only [alookup_aset] at hep'
-  split at hep'
-  · next e => cases hep'; subst e; exact h.closed m hx hEx hG ep hep d' hd'
-  · exact h.closed x hx hEx hG ep' hep' d' hd'
-
-/-- an operation that the histories of `det_partial` may contain -/
-def SafeOp (s : St L) : Op Src → Prop
-  | .load m => GoodName m
-  | .transpile m => GoodName m
-  | .unload m => m ∉ B.mods ∧ ∀ x ep, x ∈ s.mods → alookup s.eps x = some ep → m ∉ L.imports ep.tree
-  | .resubmit src => SrcOk L src ∧ SrcAcyclic L E rank TreeOk src
-
-/-- a state between two operations of a safe history -/
-def Stable (s : St L) : Prop := Coherent L E s ∧ Settled L E B rank TreeOk s []
-
-theorem SafeOp.wf {s : St L} {op : Op Src} (h : SafeOp L E B rank TreeOk s op) : Op.wf L op := by
-  cases op with
-  | load m => exact h
-  | transpile m => exact h
-  | unload m => trivial
-  | resubmit src => exact h.1
-
-theorem unload_settled (s : St L) (m : ModPath) (hS : Settled L E B rank TreeOk s [])
-    (hsafe : m ∉ B.mods ∧ ∀ x ep, x ∈ s.mods → alookup s.eps x = some ep → m ∉ L.imports ep.tree) :
-    Settled L E B rank TreeOk (unload L s m) [] := by
-  have hsrc : srcOf L E (unload L s m) = srcOf L E s := by
-    apply srcOf_congr; unfold unload; split <;> rfl
-  unfold unload at hsrc ⊢
-  split
-  · rw [if_pos (by assumption)] at hsrc
-    refine ⟨?_, ?_, ?_, ?_, hS.storedDisk, hS.mainAcyclic⟩
-    · intro b hb
-      simp only [List.mem_filter, decide_eq_true_eq]
-      exact ⟨hS.base b hb, fun e => hsafe.1 (e ▸ hb)⟩
-    · intro x hx _ n T hT
-      simp only [List.mem_filter, decide_eq_true_eq] at hx
-      rw [hsrc] at hT
-      have : tableOf (s.db.filter (fun kv => decide (modOf kv.1 ≠ m))) x = tableOf s.db x := by
-        simp only [tableOf, List.filter_filter]
-        congr 1
-        funext kv
-        by_cases h : modOf kv.1 = x
-        · simp [h, hx.2]
-        · simp [h]
-      simp only
-      rw [this]
-      exact hS.table x hx.1 (by simp) n T hT
-    · intro x hx _ hG ep hep d hd
-      simp only [List.mem_filter, decide_eq_true_eq] at hx ⊢
-      rw [hsrc] at hG
-      simp only [alookup_aerase, hx.2, if_false] at hep
-      refine ⟨hS.closed x hx.1 (by simp) hG ep hep d hd, ?_⟩
-      intro e
-      exact hsafe.2 x ep hx.1 hep (e ▸ hd)
-    · intro q rows hq n T hT
-      rw [hsrc] at hT
-      exact hS.stored q rows hq n T hT
-  · exact hS
-
 theorem srcOf_disk (s : St L) (x : ModPath) (src : Src) (hx : x ≠ E.main) (h : srcOf L E s x = some src) : E.disk x = some src := by
   unfold srcOf at h
   cases hd : E.disk x with
   | some src' => rw [hd] at h; simpa using h
   | none => rw [hd] at h; simp [hx] at h
 
-/-- a registered good module other than the in-memory one does not import the in-memory one -/
-theorem good_no_main (hW : World L E B rank TreeOk) (s : St L) (x : ModPath) (ep : Ep Tree NV) (hI : Inv L E s) (hx : x ≠ E.main)
-    (hep : alookup s.eps x = some ep) : E.main ∉ L.imports ep.tree := by
-  have ht := hI.tree x ep hep
-  cases hs : srcOf L E s x with
-  | none => rw [hs] at ht; cases ht
-  | some src =>
-    rw [hs] at ht
-    exact hW.no_import_main x src ep.tree (srcOf_disk L E s x src hx hs) (by simpa using ht)
+
+/-- touching the memo tables and the stacks changes nothing that `Settled` looks at -/
+theorem Settled.touch {s : St L} {Ex : List ModPath} (h : Settled L E B rank TreeOk s Ex) (m : ModPath) (ep : Ep Tree NV)
+    (d : List (List Str)) (pr : List (List Text)) :
+    Settled L E B rank TreeOk { s with eps := aset s.eps m (Ep.touch L ep), deps := d, proc := pr } Ex :=
+  ⟨h.base, h.table, h.stored, h.storedDisk, h.mainAcyclic⟩
+
+/-- an operation of the histories the determinism theorem quantifies over: well-formed names; the pinned base (the library
+    modules and what they import) is not unloaded; a re-submitted source imports only modules below the in-memory module -/
+def OpOk : Op Src → Prop
+  | .load m => GoodName m
+  | .transpile m => GoodName m
+  | .unload m => m ∉ B.mods
+  | .resubmit src => SrcOk L src ∧ SrcAcyclic L E rank TreeOk src
+
+/-- a state between two operations -/
+def Stable (s : St L) : Prop := Coherent L E s ∧ Settled L E B rank TreeOk s []
+
+theorem OpOk.wf {op : Op Src} (h : OpOk L E B rank TreeOk op) : Op.wf L op := by
+  cases op with
+  | load m => exact h
+  | transpile m => exact h
+  | unload m => trivial
+  | resubmit src => exact h.1
+
+theorem unload_settled (hW : World L E B rank TreeOk) (s : St L) (m : ModPath) (hI : Inv L E s)
+    (hS : Settled L E B rank TreeOk s []) (hm : m ∉ B.mods) : Settled L E B rank TreeOk (unload L E s m) [] :=
+  settled_unload L E B rank TreeOk hW s m [] hI (Settled.weaken L E B rank TreeOk hS) hm
 
 /-- Interactive.rebuild_module: a new source for the in-memory module and its unload keep the others settled -/
 theorem resubmit_settled (hW : World L E B rank TreeOk) (s : St L) (src : Src) (hI : Inv L E s) (hS : Settled L E B rank TreeOk s [])
     (hsrc : SrcAcyclic L E rank TreeOk src) :
-    Settled L E B rank TreeOk (unload L { s with mainSrc := src } E.main) [] := by
-  have hidx : ∀ n x, x ≠ E.main → refTbl L B (srcOf L E (unload L { s with mainSrc := src } E.main)) n x = refTbl L B (srcOf L E s) n x := by
-    intro n x hx
-    exact refTbl_main_indep L E B rank TreeOk hW s _ n x hx
-  have hmainS : (unload L { s with mainSrc := src } E.main).mainSrc = src := by
-    unfold unload; split <;> rfl
-  have hstoredEq : (unload L { s with mainSrc := src } E.main).stored = s.stored := by
-    unfold unload; split <;> rfl
-  have hmods : ∀ x, x ∈ (unload L { s with mainSrc := src } E.main).mods → x ∈ s.mods ∧ x ≠ E.main := by
-    intro x hx
-    unfold unload at hx
-    split at hx
-    · simp only [List.mem_filter, decide_eq_true_eq] at hx; exact hx
-    · next hnot => exact ⟨hx, fun e => hnot (e ▸ hx)⟩
-  have hmods' : ∀ x, x ∈ s.mods → x ≠ E.main → x ∈ (unload L { s with mainSrc := src } E.main).mods := by
-    intro x hx hne
-    unfold unload
-    split
-    · simp only [List.mem_filter, decide_eq_true_eq]; exact ⟨hx, hne⟩
-    · exact hx
-  have htab : ∀ x, x ≠ E.main → tableOf (unload L { s with mainSrc := src } E.main).db x = tableOf s.db x := by
-    intro x hx
-    unfold unload
-    split
-    · simp only [tableOf, List.filter_filter]
-      congr 1
-      funext kv
-      by_cases h : modOf kv.1 = x
-      · simp [h, hx]
-      · simp [h]
-    · rfl
-  have heps : ∀ x, x ≠ E.main → alookup (unload L { s with mainSrc := src } E.main).eps x = alookup s.eps x := by
-    intro x hx
-    unfold unload
-    split
-    · simp only [alookup_aerase, hx, if_false]
-    · rfl
-  refine ⟨?_, ?_, ?_, ?_, ?_, ?_⟩
-  · intro b hb
-    exact hmods' b (hS.base b hb) (fun e => hW.main_base (e ▸ hb))
-  · intro x hx _ n T hT
-    obtain ⟨hx1, hx2⟩ := hmods x hx
-    rw [hidx n x hx2] at hT
-    rw [htab x hx2]
-    exact hS.table x hx1 (by simp) n T hT
-  · intro x hx _ hG ep hep d hd
-    obtain ⟨hx1, hx2⟩ := hmods x hx
-    rw [heps x hx2] at hep
-    obtain ⟨n, T, hT⟩ := hG
-    rw [hidx n x hx2] at hT
-    have hd1 := hS.closed x hx1 (by simp) ⟨n, T, hT⟩ ep hep d hd
-    refine hmods' d hd1 ?_
-    intro e
-    exact good_no_main L E B rank TreeOk hW s x ep hI hx2 hep (e ▸ hd)
-  · intro q rows hq n T hT
-    rw [hstoredEq] at hq
+    Settled L E B rank TreeOk (unload L E { s with mainSrc := src } E.main) [] := by
+  rw [unload_setMain]
+  have hS' := unload_settled L E B rank TreeOk hW s E.main hI hS hW.main_base
+  have hnm := unload_not_mem L E s E.main
+  generalize unload L E s E.main = s' at hS' hnm
+  have hidx : ∀ n x, x ≠ E.main → refTbl L B (srcOf L E ({ s' with mainSrc := src } : St L)) n x = refTbl L B (srcOf L E s') n x :=
+    fun n x hx => refTbl_main_indep L E B rank TreeOk hW s' _ n x hx
+  refine ⟨hS'.base, ?_, ?_, hS'.storedDisk, hsrc⟩
+  · intro x hx _
+    have hne : x ≠ E.main := fun e => hnm (e ▸ hx)
+    obtain ⟨n, T, hT, hTe⟩ := hS'.table x hx (by simp)
+    exact ⟨n, T, by rw [hidx n x hne]; exact hT, hTe⟩
+  · intro q rows hq
     have hq2 : q ≠ E.main := by
       intro e
-      have := hS.storedDisk q rows hq
+      have := hS'.storedDisk q rows hq
       rw [e] at this
       unfold onDisk at this
       rw [hW.main_disk] at this
       cases this
-    rw [hidx n q hq2] at hT
-    exact hS.stored q rows hq n T hT
-  · intro q rows hq
-    rw [hstoredEq] at hq
-    exact hS.storedDisk q rows hq
-  · rw [hmainS]; exact hsrc
+    obtain ⟨n, hn⟩ := hS'.stored q rows hq
+    exact ⟨n, by rw [hidx n q hq2]; exact hn⟩
 
 /-! ## determinism of `transpile` -/
 
@@ -1036,20 +1479,35 @@ def RenderLocal : Prop :=
 
 theorem load_stable (hW : World L E B rank TreeOk) (f : Nat) (s : St L) (m : ModPath) (hm : GoodName m) (hSt : Stable L E B rank TreeOk s)
     (hnr : (loadAll L E f [m] s).1 ≠ .error .recursion) :
-    Stable L E B rank TreeOk (loadAll L E f [m] s).2 ∧ Frame L s (loadAll L E f [m] s).2 ∧
-    ((loadAll L E f [m] s).1 = .ok () → m ∈ (loadAll L E f [m] s).2.mods) ∧
-    (Good L B (srcOf L E s) m → (loadAll L E f [m] s).1 = .ok ()) := by
+    Stable L E B rank TreeOk (loadAll L E f [m] s).2 ∧ Global L s (loadAll L E f [m] s).2 ∧
+    ((loadAll L E f [m] s).1 = .ok () → Frame L s (loadAll L E f [m] s).2 ∧ m ∈ (loadAll L E f [m] s).2.mods) ∧
+    (Good L B (srcOf L E s) m → (loadAll L E f [m] s).1 = .ok ()) ∧
+    (∀ n e, refErr L B (srcOf L E s) n m = some e → (loadAll L E f [m] s).1 = .error e) := by
   have hnames : ∀ p, p ∈ [m] → GoodName p := by intro p hp; simp at hp; exact hp ▸ hm
-  obtain ⟨hI1, hF1, hok1, hE1⟩ := loadAll_inv L E hW.names f [m] s hnames hSt.1.1 hSt.1.2.2
-  obtain ⟨hS1, hG1⟩ := loadAll_Q L E B rank TreeOk hW f [m] s [] hnames hSt.1.1 hSt.1.2.2 hSt.2 (by simp) (by simp) hnr
-  refine ⟨⟨⟨hI1, hE1 hSt.1.2.1, hF1.mainSrc ▸ hSt.1.2.2⟩, hS1⟩, hF1, fun h => hok1 h m (by simp), fun hG => hG1 ?_⟩
-  intro p hp; simp at hp; exact hp ▸ hG
+  obtain ⟨hI, hE, hM, hX⟩ := hSt.1
+  obtain ⟨hI1, hG1, hE1, hok1, _, hX1⟩ := loadAll_inv L E hW.names f [m] s hnames hI hM
+  obtain ⟨hS1, hG, hEr⟩ := loadAll_Q L E B rank TreeOk hW f [m] s [] hnames hI hE hM hSt.2 (by simp) (by simp) hnr
+  refine ⟨⟨⟨hI1, hE1 hE, hG1.mainSrc ▸ hM, hX1 [] hX⟩, hS1⟩, hG1, ?_, ?_, ?_⟩
+  · intro h
+    obtain ⟨a, b⟩ := hok1 h
+    exact ⟨a, b m (by simp)⟩
+  · intro hGm
+    apply hG
+    intro p hp; simp at hp; exact hp ▸ hGm
+  · intro n e he
+    apply hEr n e
+    simp only [scanErr]
+    have : (refTbl L B (srcOf L E s) n m).isSome = false := by
+      cases hT : refTbl L B (srcOf L E s) n m with
+      | none => rfl
+      | some T => exact absurd hT (fun h => good_not_err L B _ n m e he n T h)
+    simp [this, he]
 
 theorem det_core (hW : World L E B rank TreeOk) (hR : RenderLocal L B TreeOk) (s : St L) (m : ModPath) (hgm : GoodName m)
     (hSt : Stable L E B rank TreeOk s) (hm : m ∈ s.mods) (n : Nat) (T : List (Key × V)) (hT : refTbl L B (srcOf L E s) n m = some T)
     (ep : Ep Tree NV) (hep : alookup s.eps m = some ep) :
     L.render m (Ep.nf L ep) (alookup s.db) = L.render m (L.query ep.tree) (refLookAll L B (srcOf L E s) n) := by
-  obtain ⟨⟨hI, _, _⟩, hS⟩ := hSt
+  obtain ⟨⟨hI, _, _, hX⟩, hS⟩ := hSt
   rw [nf_eq L ep (hI.memo m ep hep)]
   apply hR (srcOf L E s) m ep.tree (fun y => y ∈ s.mods ∧ ∃ Ty, refTbl L B (srcOf L E s) n y = some Ty) _ _ hgm
     (hI.tree m ep hep) (imports_rank L E B rank TreeOk hW s m ep hI hS.mainAcyclic hep).1
@@ -1057,11 +1515,10 @@ theorem det_core (hW : World L E B rank TreeOk) (hR : RenderLocal L B TreeOk) (s
   · intro b hb
     exact ⟨hS.base b hb, _, refTbl_base L B _ n b hb⟩
   · rintro y ⟨hy, Ty, hTy⟩ ty hty d hd
-    obtain ⟨epy, hepy⟩ := (ahas_iff _ _).1 (hI.eps y hy)
-    have htree := hI.tree y epy hepy
-    rw [hty] at htree
-    have htyeq : ty = epy.tree := by simpa using htree
-    refine ⟨hS.closed y hy (by simp) ⟨n, Ty, hTy⟩ epy hepy d (htyeq ▸ hd), ?_⟩
+    obtain ⟨t', ht', hi'⟩ := importsOf_src L E s y hI hy
+    rw [hty] at ht'
+    have htyeq : ty = t' := by simpa using ht'
+    refine ⟨hX y hy (by simp) d (by simp only [depsOf, List.mem_append]; left; rw [hi', ← htyeq]; exact hd), ?_⟩
     by_cases hb : y ∈ B.mods
     · cases hs : srcOf L E s y with
       | none => rw [hs] at hty; cases hty
@@ -1070,9 +1527,9 @@ theorem det_core (hW : World L E B rank TreeOk) (hR : RenderLocal L B TreeOk) (s
         have hne : y ≠ E.main := fun e => hW.main_base (e ▸ hb)
         have := hW.base_closed y hb src ty (srcOf_disk L E s y src hne hs) (by simpa using hty) d hd
         exact ⟨_, refTbl_base L B _ n d this⟩
-    · obtain ⟨m', src, t', ins, hn, hsrc, hparse, hdeps, _⟩ := refTbl_step L B hb hTy
+    · obtain ⟨m', src, t'', ins, hn, hsrc, hparse, hdeps, _⟩ := refTbl_step L B hb hTy
       rw [hsrc] at hty
-      have : t' = ty := by simpa [hparse] using hty
+      have : t'' = ty := by simpa [hparse] using hty
       subst this
       obtain ⟨Td, hTd⟩ := hdeps d hd
       exact ⟨Td, refTbl_mono L B _ (by omega) d Td hTd⟩
@@ -1080,7 +1537,7 @@ theorem det_core (hW : World L E B rank TreeOk) (hR : RenderLocal L B TreeOk) (s
     unfold refLookAll
     rw [hTy]
     simp only [Option.bind]
-    rw [← alookup_tableOf s.db (modOf k) k rfl, hS.table (modOf k) hy (by simp) n Ty hTy]
+    rw [← alookup_tableOf s.db (modOf k) k rfl, hS.tableEq L E B rank TreeOk (modOf k) hy (by simp) n Ty hTy]
 
 /-- `transpile m` of a good module in a stable state returns the reference result (text or render error) -/
 theorem transpile_det (hW : World L E B rank TreeOk) (hR : RenderLocal L B TreeOk) (f : Nat) (s : St L) (m : ModPath) (hm : GoodName m)
@@ -1096,14 +1553,14 @@ theorem transpile_det (hW : World L E B rank TreeOk) (hR : RenderLocal L B TreeO
   cases rr with
   | error e =>
     simp only at hnr
-    obtain ⟨_, _, _, hG⟩ := h1 (by intro h; cases h; exact hnr rfl)
+    obtain ⟨_, _, _, hG, _⟩ := h1 (by intro h; cases h; exact hnr rfl)
     have := hG ⟨n, T, hT⟩
     cases this
   | ok u =>
-    obtain ⟨hSt1, hF1, hmem, _⟩ := h1 (by intro h; cases h)
-    have hm1 : m ∈ s1.mods := hmem rfl
+    obtain ⟨hSt1, hG1, hmem, _, _⟩ := h1 (by intro h; cases h)
+    have hm1 : m ∈ s1.mods := (hmem rfl).2
     obtain ⟨ep, hep⟩ := (ahas_iff _ _).1 (hSt1.1.1.eps m hm1)
-    have hsrc1 := srcOf_congr L E s s1 hF1.mainSrc
+    have hsrc1 := srcOf_congr L E s s1 hG1.mainSrc
     have htree := hSt1.1.1.tree m ep hep
     rw [hsrc1] at htree
     refine ⟨ep.tree, htree, ?_⟩
@@ -1112,6 +1569,27 @@ theorem transpile_det (hW : World L E B rank TreeOk) (hR : RenderLocal L B TreeO
     rw [hsrc1] at hcore
     rw [hcore]
     cases (L.render m (L.query ep.tree) (refLookAll L B (srcOf L E s) n)).1 <;> rfl
+
+/-- `transpile m` of a module that is not good raises its reference error (the one a fresh process raises) -/
+theorem transpile_det_err (hW : World L E B rank TreeOk) (f : Nat) (s : St L) (m : ModPath) (hm : GoodName m)
+    (hSt : Stable L E B rank TreeOk s) (n : Nat) (e : Err) (he : refErr L B (srcOf L E s) n m = some e)
+    (hnr : (transpile L E f s m).1 ≠ .error .recursion) :
+    (transpile L E f s m).1 = .error e := by
+  unfold transpile at hnr ⊢
+  have h1 := load_stable L E B rank TreeOk hW f s m hm hSt
+  generalize loadAll L E f [m] s = r at h1 hnr ⊢
+  obtain ⟨rr, s1⟩ := r
+  simp only at h1 hnr ⊢
+  cases rr with
+  | error e' =>
+    simp only at hnr ⊢
+    obtain ⟨_, _, _, _, hEr⟩ := h1 (by intro h; cases h; exact hnr rfl)
+    have := hEr n e he
+    cases this; rfl
+  | ok u =>
+    obtain ⟨_, _, _, _, hEr⟩ := h1 (by intro h; cases h)
+    have := hEr n e he
+    cases this
 
 theorem transpile_stable (hW : World L E B rank TreeOk) (f : Nat) (s : St L) (m : ModPath) (hm : GoodName m)
     (hSt : Stable L E B rank TreeOk s) (hnr : (transpile L E f s m).1 ≠ .error .recursion) :
@@ -1132,13 +1610,13 @@ theorem transpile_stable (hW : World L E B rank TreeOk) (f : Nat) (s : St L) (m 
     | some ep =>
       simp only
       cases (L.render m (Ep.nf L ep) (alookup s1.db)).1 with
-      | ok t => exact Settled.touch L E B rank TreeOk hSt1.2 m ep hep _ _
-      | error e => exact Settled.touch L E B rank TreeOk hSt1.2 m ep hep _ _
+      | ok t => exact Settled.touch L E B rank TreeOk hSt1.2 m ep _ _
+      | error e => exact Settled.touch L E B rank TreeOk hSt1.2 m ep _ _
 
-theorem step_stable (hW : World L E B rank TreeOk) (f : Nat) (s : St L) (op : Op Src) (hop : SafeOp L E B rank TreeOk s op)
+theorem step_stable (hW : World L E B rank TreeOk) (f : Nat) (s : St L) (op : Op Src) (hop : OpOk L E B rank TreeOk op)
     (hSt : Stable L E B rank TreeOk s) (hnr : (step L E f s op).1 ≠ .error .recursion) :
     Stable L E B rank TreeOk (step L E f s op).2 := by
-  have hC := step_coherent L E hW.names f s op (SafeOp.wf L E B rank TreeOk hop) hSt.1
+  have hC := step_coherent L E hW.names f s op (OpOk.wf L E B rank TreeOk hop) hSt.1
   cases op with
   | load m =>
     simp only [step] at hnr ⊢
@@ -1158,31 +1636,26 @@ theorem step_stable (hW : World L E B rank TreeOk) (f : Nat) (s : St L) (op : Op
     | ok t => exact h1 (by intro h; cases h)
   | unload m =>
     simp only [step] at hC ⊢
-    exact ⟨hC, unload_settled L E B rank TreeOk s m hSt.2 hop⟩
+    exact ⟨hC, unload_settled L E B rank TreeOk hW s m hSt.1.1 hSt.2 hop⟩
   | resubmit src =>
     simp only [step, resubmit] at hnr ⊢
-    have hC1 : Coherent L E (unload L { s with mainSrc := src } E.main) := by
-      refine ⟨resubmit_unload_inv L E s src hSt.1.1 ?_, unload_epsSub L _ E.main hSt.1.2.1, ?_⟩
-      · cases h : alookup s.eps E.main with
-        | none => exact Or.inr rfl
-        | some ep => exact Or.inl (hSt.1.2.1 E.main ((ahas_iff _ _).2 ⟨ep, h⟩))
-      · unfold unload; split <;> exact hop.1
+    have hC1 := resubmit_unload_coherent L E s src hSt.1 hop.1
     have hS1 := resubmit_settled L E B rank TreeOk hW s src hSt.1.1 hSt.2 hop.2
     have h1 := transpile_stable L E B rank TreeOk hW f _ E.main hW.names.main ⟨hC1, hS1⟩
-    generalize transpile L E f (unload L { s with mainSrc := src } E.main) E.main = r at h1 hnr ⊢
+    generalize transpile L E f (unload L E { s with mainSrc := src } E.main) E.main = r at h1 hnr ⊢
     obtain ⟨rr, s1⟩ := r
     cases rr with
     | error e => exact h1 (by intro h; cases h; exact hnr rfl)
     | ok t => exact h1 (by intro h; cases h)
 
-/-- states reachable from `s₀` by safe operations none of which ran out of fuel -/
-inductive SafeReach (f : Nat) (s₀ : St L) : St L → Prop where
-  | base : SafeReach f s₀ s₀
-  | step (s : St L) (op : Op Src) : SafeReach f s₀ s → SafeOp L E B rank TreeOk s op → (step L E f s op).1 ≠ .error .recursion →
-      SafeReach f s₀ (step L E f s op).2
+/-- states reachable from `s₀` by operations none of which ran out of fuel — no other restriction on the history -/
+inductive Reach (f : Nat) (s₀ : St L) : St L → Prop where
+  | base : Reach f s₀ s₀
+  | step (s : St L) (op : Op Src) : Reach f s₀ s → OpOk L E B rank TreeOk op → (step L E f s op).1 ≠ .error .recursion →
+      Reach f s₀ (step L E f s op).2
 
 theorem reach_stable (hW : World L E B rank TreeOk) (f : Nat) (s₀ s : St L) (h0 : Stable L E B rank TreeOk s₀)
-    (h : SafeReach L E B rank TreeOk f s₀ s) : Stable L E B rank TreeOk s := by
+    (h : Reach L E B rank TreeOk f s₀ s) : Stable L E B rank TreeOk s := by
   induction h with
   | base => exact h0
   | step s op _ hop hnr ih => exact step_stable L E B rank TreeOk hW f s op hop ih hnr
@@ -1193,31 +1666,56 @@ theorem load_table (hW : World L E B rank TreeOk) (f : Nat) (s : St L) (m : ModP
     (hnr : (loadAll L E f [m] s).1 ≠ .error .recursion) :
     (loadAll L E f [m] s).1 = .ok () ∧ m ∈ (loadAll L E f [m] s).2.mods ∧ tableOf (loadAll L E f [m] s).2.db m = T ∧
     ∃ ep, alookup (loadAll L E f [m] s).2.eps m = some ep ∧ (srcOf L E s m).bind L.parse = some ep.tree := by
-  obtain ⟨hSt1, hF1, hmem, hG⟩ := load_stable L E B rank TreeOk hW f s m hm hSt hnr
+  obtain ⟨hSt1, hG1, hmem, hG, _⟩ := load_stable L E B rank TreeOk hW f s m hm hSt hnr
   have hok := hG ⟨n, T, hT⟩
-  have hm1 := hmem hok
-  have hsrc1 := srcOf_congr L E s _ hF1.mainSrc
-  refine ⟨hok, hm1, hSt1.2.table m hm1 (by simp) n T (by rw [hsrc1]; exact hT), ?_⟩
+  have hm1 := (hmem hok).2
+  have hsrc1 := srcOf_congr L E s _ hG1.mainSrc
+  refine ⟨hok, hm1, hSt1.2.tableEq L E B rank TreeOk m hm1 (by simp) n T (by rw [hsrc1]; exact hT), ?_⟩
   obtain ⟨ep, hep⟩ := (ahas_iff _ _).1 (hSt1.1.1.eps m hm1)
   exact ⟨ep, hep, hsrc1 ▸ hSt1.1.1.tree m ep hep⟩
+
+theorem srcOf_acyclic (hW : World L E B rank TreeOk) (s : St L) (hM : SrcAcyclic L E rank TreeOk s.mainSrc) :
+    ∀ x src t, srcOf L E s x = some src → L.parse src = some t → ∀ d, d ∈ L.imports t → rank d < rank x := by
+  intro x src t hs hp d hd
+  unfold srcOf at hs
+  cases hdk : E.disk x with
+  | some src' =>
+    rw [hdk] at hs
+    simp only [Option.some.injEq] at hs
+    subst hs
+    exact (hW.acyclic x src' t hdk hp).2 d hd
+  | none =>
+    rw [hdk] at hs
+    simp only at hs
+    split at hs
+    · next e =>
+      simp only [Option.some.injEq] at hs
+      subst hs
+      rw [e]; exact (hM t hp).2 d hd
+    · cases hs
+
+/-- in an acyclic world every module has a reference table or a reference error -/
+theorem determined (hW : World L E B rank TreeOk) (s : St L) (hM : SrcAcyclic L E rank TreeOk s.mainSrc) (m : ModPath) :
+    ∃ n, Determined L B (srcOf L E s) n m :=
+  determined_of_acyclic L B (srcOf L E s) rank (srcOf_acyclic L E B rank TreeOk hW s hM) (rank m + 1) m (Nat.lt_succ_self _)
 
 /-! ## the runner -/
 
 theorem transpile_mainSrc (hN : Names L E) (f : Nat) (s : St L) (m : ModPath) (hm : GoodName m) (hC : Coherent L E s) :
     (transpile L E f s m).2.mainSrc = s.mainSrc := by
   unfold transpile
-  obtain ⟨_, hF1, _, _⟩ := loadAll_inv L E hN f [m] s (by intro p hp; simp at hp; exact hp ▸ hm) hC.1 hC.2.2
-  generalize loadAll L E f [m] s = r at hF1
+  obtain ⟨_, hG1, _⟩ := loadAll_inv L E hN f [m] s (by intro p hp; simp at hp; exact hp ▸ hm) hC.1 hC.2.2.1
+  generalize loadAll L E f [m] s = r at hG1
   obtain ⟨rr, s1⟩ := r
   cases rr with
-  | error e => exact hF1.mainSrc
+  | error e => exact hG1.mainSrc
   | ok u =>
     simp only
     cases alookup s1.eps m with
-    | none => exact hF1.mainSrc
+    | none => exact hG1.mainSrc
     | some ep =>
       simp only
-      cases (L.render m (Ep.nf L ep) (alookup s1.db)).1 <;> exact hF1.mainSrc
+      cases (L.render m (Ep.nf L ep) (alookup s1.db)).1 <;> exact hG1.mainSrc
 
 /-- every result the runner produces is the reference result of its target — whatever was transpiled before it -/
 theorem runner_det (hW : World L E B rank TreeOk) (hR : RenderLocal L B TreeOk) (f N : Nat) : ∀ (ts : List ModPath) (s : St L),
@@ -1274,6 +1772,7 @@ theorem runner_complete (f : Nat) : ∀ (ts : List ModPath) (s : St L),
     | ok t =>
       simp only [List.map_cons, List.cons.injEq, true_and]
       exact ih s' (fun mr hmr => hok mr (List.mem_cons_of_mem _ hmr))
+
 
 end Main
 
@@ -1443,7 +1942,7 @@ theorem desc_init_stable (rank : ModPath → Nat) (pool : List (ModPath × Desc)
     (hsrc : descTreeOk ⟨[], fun _ => []⟩ src) (hrank : ∀ mn, mn ∈ src.imports → rank mn.1 < rank main) :
     Stable descLang (poolEnv pool [] main) ⟨[], fun _ => []⟩ rank (descTreeOk ⟨[], fun _ => []⟩) ({ mainSrc := src } : State Desc Desc Desc Str Str) := by
   refine ⟨init_coherent descLang _ src (descSrcOk src hsrc.1), ?_⟩
-  refine ⟨by simp, by simp, by simp, by simp [alookup], by simp [alookup], ?_⟩
+  refine ⟨by simp, by simp, by simp [alookup], by simp [alookup], ?_⟩
   intro t ht
   have := desc_parse ht
   subst this
